@@ -2,22 +2,19 @@
    from itself: check (observe_model h calls) = (0, 0, 0). *)
 From SC Require Import Lib.Prelude Lib.Int Lib.Host Model.ClaimIssuer Model.Identity Run.C15
   Proofs.C15Base Proofs.C15Bytes Proofs.C15Verify Proofs.C15Issuer Proofs.C15Registry Proofs.C15Ident
-  Proofs.C15World.
-
-(* ---------------- the model's own trace ---------------- *)
-Fixpoint model_trace (h : hdr) (w : world) (ks : list call) : list item :=
-  match ks with
-  | [] => []
-  | k :: r => let wo := step (cfg_of h) w k in (k, snd wo, observe h (fst wo)) :: model_trace h (fst wo) r
-  end.
-Definition observe_model (h : hdr) (ks : list call) : trace := (h, model_trace h (init_of h) ks).
+  Proofs.C15World Proofs.C15Extra.
 
 (* the calls stay inside the universe the header declares (what the harness guarantees):
    topics that become required and issuers that become trusted are observed ones *)
 Definition wf_call (h : hdr) (k : call) : bool :=
   match k with
   | AddTopic _ t => mem_z t (h_topics h)
-  | AddIssuer _ i _ => mem_a i (h_iaddrs h)
+  | AddIssuer _ i _ | RemoveIssuer _ i | UpdateIssuer _ i _ => mem_a i (h_iaddrs h)
+  | AddIdentity _ a _ _ | ModifyIdentity _ a _ | RemoveIdentity _ a | Verify a | RecoveryTarget a => mem_a a (h_accounts h)
+  | RecoverIdentity _ old new => mem_a old (h_accounts h) && mem_a new (h_accounts h)
+  | AddClaim _ cl => id_in_universe h (cl_issuer cl, cl_topic cl)
+  | RemoveClaim _ id => id_in_universe h id
+  | ForceClaim _ id ix _ => id_in_universe h id && mem_z ix (h_topics h)
   | _ => true
   end.
 
@@ -172,16 +169,24 @@ Section Lookups.
     - split; [discriminate | intros [s [Hx _]]; discriminate].
   Qed.
 
-  (* ---- the monitor's index_sound flag gives what completeness needs ---- *)
-  Lemma index_sound_model d s t issuers :
-    index_sound h o d = true -> the_ident w d = Ok s -> In t (h_topics h) ->
-    (forall i, In i issuers -> In i (h_iaddrs h)) -> index_sound_for s t issuers.
+  (* ---- no dangling id under a required topic: what completeness needs ---- *)
+  Lemma dangling_model ct d s t issuers :
+    dangling h o (observe_cti h ct) d = false -> the_ident w d = Ok s -> In t (ct_topics ct) ->
+    (forall i, In i issuers -> trusted_for h (observe_cti h ct) i t = true) -> index_sound_for s t issuers.
   Proof.
-    intros Hx Es Ht Hsub i Hi Hin. unfold index_sound in Hx. rewrite ident_at_model in Hx.
-    apply the_ident_get in Es. rewrite Es in Hx. rewrite forallb_forall in Hx.
-    specialize (Hx t Ht). rewrite (ids_at_model d s t Ht), forallb_forall in Hx. specialize (Hx _ Hin). cbn [fst snd] in Hx.
-    rewrite (cell_at_model d s i t (Hsub i Hi) Ht) in Hx. unfold observe_cell in Hx.
-    destruct (get_claim s (i, t)) as [cl|]; [exists cl; reflexivity | discriminate].
+    intros Hx Es Ht Htr i Hi Hin. unfold dangling in Hx. rewrite ident_at_model in Hx.
+    apply the_ident_get in Es. rewrite Es in Hx.
+    destruct (get_claim s (i, t)) as [cl|] eqn:Eg; [exists cl; reflexivity|]. exfalso.
+    assert (Hy : existsb (fun t0 => existsb (fun i0 => trusted_for h (observe_cti h ct) i0 t0
+                  && existsb (cid_eqb (i0, t0)) (ids_at h (observe_ident h c w d s) t0)
+                  && negb (is_some (cell_at h (observe_ident h c w d s) i0 t0))) (h_iaddrs h)) (co_topics (observe_cti h ct)) = true);
+      [|rewrite Hx in Hy; discriminate].
+    pose proof (Htr i Hi) as Htf. pose proof (proj1 (trusted_for_model ct i t) Htf) as [Hiu [Htu _]].
+    apply existsb_exists. exists t. split; [unfold observe_cti; cbn [co_topics]; exact Ht|].
+    apply existsb_exists. exists i. split; [exact Hiu|].
+    rewrite Htf, (ids_at_model d s t Htu), (cell_at_model d s i t Hiu Htu). cbn [andb].
+    apply andb_true_iff. split; [apply (existsb_eqb_In _ cid_eqb_spec); exact Hin|].
+    unfold observe_cell. rewrite Eg. reflexivity.
   Qed.
 End Lookups.
 
@@ -289,7 +294,7 @@ Section VerifyOk.
   Lemma expected_main a ra r d ca ct : In a (h_accounts h) ->
     w_virs w = Some ra -> the_irs w ra = Ok r -> stored_identity r a = Ok d ->
     w_vcti w = Some ca -> the_cti w ca = Ok ct ->
-    expected_verify h o a = (forallb (topic_satisfied h o (observe_cti h ct) d) (ct_topics ct), index_sound h o d).
+    expected_verify h o a = (forallb (topic_satisfied h o (observe_cti h ct) d) (ct_topics ct), negb (dangling h o (observe_cti h ct) d)).
   Proof.
     intros Ha E1 E2 E3 E4 E5. unfold expected_verify. cbn [o_ver observe vo_irs vo_cti]. rewrite E1, E4.
     rewrite (irs_at_model h w Hd), (cti_at_model h w Hd).
@@ -347,8 +352,10 @@ Section VerifyOk.
       pose proof (wi_cti w Hw _ _ (the_cti_get _ _ _ E5)) as Hinv.
       destruct (topics_and_issuers_reading ct Hinv) as [m' [Em [Hm1 Hm2]]]. rewrite F6 in Em. inversion Em. subst m'.
       destruct (proj1 (Hm1 t issuers) Hin) as [Ht _]. destruct Hcl as [Hc1 Hc2].
-      apply (index_sound_model h w Hd d s t issuers Hex Es (Hc1 t Ht)).
-      intros i Hi. apply Hc2. apply (Hm2 _ _ Hin) in Hi. destruct Hi as [Htr _]. apply mem_a_In. exact Htr. }
+      apply negb_true_iff in Hex.
+      apply (dangling_model h w Hd ct d s t issuers Hex Es Ht).
+      intros i Hi. apply (Hm2 _ _ Hin) in Hi. destruct Hi as [Htr Hhas].
+      apply trusted_for_model. repeat split; auto. apply Hc2. apply mem_a_In. exact Htr. }
     destruct exact.
     - destruct (is_ok (verify_identity c w a)) eqn:Ev; destruct e; auto;
         try (specialize (Hs eq_refl); discriminate); try (specialize (Hcm eq_refl eq_refl); discriminate).
@@ -357,231 +364,7 @@ Section VerifyOk.
   Qed.
 End VerifyOk.
 
-(* ---------------- part 2 of the monitor: what the reference issuer confirms ---------------- *)
-Lemma is_claim_valid_bool c now self s d t scheme sig data :
-  is_ok (is_claim_valid c now self s d t scheme sig data) =
-  match extract_sig scheme sig with
-  | Fail => false
-  | Ok sd =>
-      is_key_allowed_for_topic s (sd_pk sd) scheme t
-      && match decode_expiration data with Ok (_, vu, _) => now <? vu | Fail => false end
-      && negb (is_claim_revoked s d t data)
-      && c_sigok c scheme (sd_pk sd)
-           (build_claim_message (c_net c) (c_xdr c self) (c_xdr c d) t (get_current_nonce_for s d t) data)
-           (sd_sig sd) (sd_rid sd)
-  end.
-Proof.
-  unfold is_claim_valid, claim_message, is_claim_expired.
-  destruct (extract_sig scheme sig) as [sd|]; cbn [bind]; [|reflexivity].
-  destruct (is_key_allowed_for_topic s (sd_pk sd) scheme t); cbn [guard bind andb]; [|reflexivity].
-  destruct (decode_expiration data) as [[[ca vu] p]|]; cbn [bind]; [|reflexivity].
-  rewrite (Z.ltb_antisym vu now). destruct (vu <=? now); cbn [negb guard bind andb]; [reflexivity|].
-  destruct (is_claim_revoked s d t data); cbn [negb guard bind andb]; [reflexivity|].
-  destruct (c_sigok c scheme (sd_pk sd) _ (sd_sig sd) (sd_rid sd)); reflexivity.
-Qed.
-
-Lemma cell_ok_model h w d s i t : cell_ok h (observe h w) d i t (observe_cell (cfg_of h) w d s i t) = true.
-Proof.
-  unfold cell_ok, observe_cell. destruct (get_claim s (i, t)) as [cl|]; [|reflexivity].
-  cbn [cd_info cd_confirmed cd_claim]. unfold call_is_claim_valid.
-  destruct (the_issuer w i) as [si|]; cbn [bind]; [|reflexivity].
-  rewrite is_claim_valid_bool. unfold confirm_expected.
-  destruct (extract_sig (cl_scheme cl) (cl_sig cl)) as [sd|]; [|reflexivity].
-  cbn [observe o_now cfg_of c_net c_xdr c_sigok].
-  destruct (is_key_allowed_for_topic si (sd_pk sd) (cl_scheme cl) t); cbn [andb]; [|reflexivity].
-  apply Bool.eqb_reflx.
-Qed.
-
-Lemma issuers_ok_model h w : issuers_ok h (observe h w) = true.
-Proof.
-  unfold issuers_ok. cbn [observe o_idents]. rewrite combine_map, forallb_forall.
-  intros [d dob] Hin. apply in_map_iff in Hin. destruct Hin as [d' [E _]]. inversion E. subst d' dob. clear E. cbn [fst snd].
-  unfold observe_ident at 1. cbn [do_claims]. rewrite combine_map, forallb_forall.
-  intros [i row] Hin. apply in_map_iff in Hin. destruct Hin as [i' [E _]]. inversion E. subst i' row. clear E. cbn [fst snd].
-  rewrite combine_map, forallb_forall.
-  intros [t cell] Hin. apply in_map_iff in Hin. destruct Hin as [t' [E _]]. inversion E. subst t' cell. clear E. cbn [fst snd].
-  apply cell_ok_model.
-Qed.
-
-(* ---------------- part 3 of the monitor: the registry's two indexes ---------------- *)
-Lemma registry_ok_model h ct : cti_inv ct -> cti_closed h ct -> registry_ok h (observe_cti h ct) = true.
-Proof.
-  intros Hi [Hc1 Hc2]. unfold registry_ok. apply andb_true_iff. split.
-  - rewrite forallb_forall. intros i Hiu. rewrite forallb_forall. intros t Htu.
-    apply Bool.eqb_true_iff. apply eq_true_iff_eq. rewrite trusted_for_model.
-    unfold observe_cti at 1 2. cbn [co_topics co_tissuers].
-    rw_lookup (at_key_map_in _ Z_eqb_spec (get_claim_topic_issuers ct) t _ Htu).
-    rewrite andb_true_iff, mem_z_In. unfold get_claim_topic_issuers.
-    unfold is_trusted_issuer. rewrite mem_a_In, has_claim_topic_true.
-    split.
-    + intros [Ht Hl]. destruct (aget Z.eqb t (ct_tissuers ct)) as [l|] eqn:El; cbn [of_option] in Hl; [|discriminate].
-      apply mem_a_In in Hl. assert (Hx : In i (tiss ct t)) by (unfold tiss; rewrite El; exact Hl).
-      repeat split; auto; [eapply listed_is_trusted; eauto | apply (ri_coherent ct Hi); exact Hx].
-    + intros [_ [_ [Htr Hx]]]. apply (ri_coherent ct Hi) in Hx. split.
-      * apply (ri_tpresent ct Hi). unfold tiss in Hx. destruct (aget Z.eqb t (ct_tissuers ct)); [discriminate | destruct Hx].
-      * unfold tiss in Hx. destruct (aget Z.eqb t (ct_tissuers ct)) as [l|]; cbn [of_option]; [apply mem_a_In; exact Hx | destruct Hx].
-  - unfold observe_cti at 1. cbn [co_map].
-    destruct (topics_and_issuers_reading ct Hi) as [m [Em [Hm1 _]]]. rewrite Em.
-    apply andb_true_iff. split.
-    + unfold observe_cti. cbn [co_topics co_tissuers]. rewrite forallb_forall. intros t Ht.
-      unfold get_claim_topics_and_issuers in Em. rewrite (topics_and_issuers_from_get _ _ _ _ Em t).
-      assert (mem_z t (ct_topics ct) = true) as -> by (apply mem_z_In; exact Ht).
-      rw_lookup (at_key_map_in _ Z_eqb_spec (get_claim_topic_issuers ct) t _ (Hc1 t Ht)).
-      unfold get_claim_topic_issuers. apply (ri_tpresent ct Hi) in Ht. unfold addr in *.
-      match goal with |- context [@aget ?K ?V ?e ?k ?ll] => destruct (@aget K V e k ll) as [l|] eqn:El end; [|exfalso; apply Ht; reflexivity]. cbn [of_option].
-      apply (list_eqb_spec _ N_eqb_spec). reflexivity.
-    + rewrite forallb_forall. intros [t l] Hin. cbn [fst]. unfold observe_cti. cbn [co_topics].
-      apply mem_z_In. apply (Hm1 t l). exact Hin.
-Qed.
-
-Lemma mon_state_model h w : world_inv w -> dom h w -> closed h w -> mon_state h (observe h w) = true.
-Proof.
-  intros Hw Hd Hc. unfold mon_state. rewrite !andb_true_iff. split; [split|].
-  - apply verify_ok_model; auto.
-  - apply issuers_ok_model.
-  - cbn [observe o_ctis]. rewrite forallb_forall. intros co Hin. apply in_map_iff in Hin. destruct Hin as [a [<- Ha]].
-    unfold get_or. destruct (aget N.eqb a (w_ctis w)) as [s|] eqn:E.
-    + apply registry_ok_model; [apply (wi_cti w Hw a s E) | apply (Hc a s E)].
-    + apply registry_ok_model; [apply cti_inv_init | split; intros x []].
-Qed.
-
-(* ---------------- temporal clauses ---------------- *)
-Lemma nonce_at_model h w i d t n : dom h w -> nonce_at h (observe h w) i d t = Some n ->
-  exists s, the_issuer w i = Ok s /\ n = get_current_nonce_for s d t.
-Proof.
-  intros Hd. unfold nonce_at. rewrite (issuer_at_model h w Hd). unfold the_issuer.
-  destruct (aget N.eqb i (w_issuers w)) as [s|]; [|discriminate]. unfold observe_issuer. cbn [so_nonce].
-  match goal with |- context [at_key ?e ?k ?ks ?vs] => destruct (at_key e k ks vs) as [row|] eqn:E1; [|discriminate] end.
-  apply (at_key_map_some _ N_eqb_spec) in E1. destruct E1 as [_ ->].
-  intros E2. apply (at_key_map_some _ Z_eqb_spec) in E2. destruct E2 as [_ ->]. exists s. auto.
-Qed.
-Lemma revoked_at_model h w i q r : dom h w -> revoked_at h (observe h w) i q = Some r ->
-  exists s, the_issuer w i = Ok s /\ r = is_claim_revoked s (fst (fst q)) (snd (fst q)) (snd q).
-Proof.
-  intros Hd. unfold revoked_at. rewrite (issuer_at_model h w Hd). unfold the_issuer.
-  destruct (aget N.eqb i (w_issuers w)) as [s|]; [|discriminate]. unfold observe_issuer. cbn [so_revoked].
-  rewrite (aget_map_const _ rkey_eqb_spec (fun q : rkey => is_claim_revoked s (fst (fst q)) (snd (fst q)) (snd q))).
-  destruct (existsb (rkey_eqb q) (h_revq h)); [|discriminate]. intros E. inversion E. exists s. auto.
-Qed.
-
-Lemma nonce_at_eq h w i d t : dom h w ->
-  nonce_at h (observe h w) i d t =
-  match aget N.eqb i (w_issuers w) with
-  | Some s => if existsb (N.eqb d) (h_idents h)
-              then if existsb (Z.eqb t) (h_topics h) then Some (get_current_nonce_for s d t) else None
-              else None
-  | None => None
-  end.
-Proof.
-  intros Hd. unfold nonce_at. rewrite (issuer_at_model h w Hd).
-  destruct (aget N.eqb i (w_issuers w)) as [s|]; [|reflexivity]. unfold observe_issuer. cbn [so_nonce].
-  rw_lookup (at_key_map N.eqb N_eqb_spec (fun d : N => map (get_current_nonce_for s d) (h_topics h)) d (h_idents h)).
-  destruct (existsb (N.eqb d) (h_idents h)); [|reflexivity].
-  rw_lookup (at_key_map Z.eqb Z_eqb_spec (get_current_nonce_for s d) t (h_topics h)). reflexivity.
-Qed.
-Lemma revoked_at_eq h w i q : dom h w ->
-  revoked_at h (observe h w) i q =
-  match aget N.eqb i (w_issuers w) with
-  | Some s => if existsb (rkey_eqb q) (h_revq h)
-              then Some (is_claim_revoked s (fst (fst q)) (snd (fst q)) (snd q)) else None
-  | None => None
-  end.
-Proof.
-  intros Hd. unfold revoked_at. rewrite (issuer_at_model h w Hd).
-  destruct (aget N.eqb i (w_issuers w)) as [s|]; [|reflexivity]. unfold observe_issuer. cbn [so_revoked].
-  apply (aget_map_const _ rkey_eqb_spec (fun q : rkey => is_claim_revoked s (fst (fst q)) (snd (fst q)) (snd q))).
-Qed.
-
-(* two worlds whose issuers agree except (possibly) at one address *)
-Definition issuers_agree (w w' : world) (i : addr) (P : issuer -> issuer -> Prop) : Prop :=
-  forall i', match aget N.eqb i' (w_issuers w), aget N.eqb i' (w_issuers w') with
-             | Some s, Some s' => if N.eqb i' i then P s s' else s' = s
-             | None, None => True
-             | _, _ => False
-             end.
-
-Lemma issuers_agree_set w i s s' (P : issuer -> issuer -> Prop) :
-  the_issuer w i = Ok s -> P s s' -> issuers_agree w (set_issuer w i s') i P.
-Proof.
-  intros Es Hp i'. cbn [set_issuer w_issuers]. rewrite (aget_aset _ N_eqb_spec).
-  apply the_issuer_get in Es. destruct (N.eqb i' i) eqn:Ei.
-  - apply N.eqb_eq in Ei. subst i'. rewrite Es. exact Hp.
-  - destruct (aget N.eqb i' (w_issuers w)); auto.
-Qed.
-
-Lemma nonces_frame_model h w w' i exc (P : issuer -> issuer -> Prop) : dom h w -> dom h w' ->
-  issuers_agree w w' i P ->
-  (forall s s' d t, P s s' -> exc i d t = false -> get_current_nonce_for s' d t = get_current_nonce_for s d t) ->
-  nonces_frame h (observe h w) (observe h w') exc = true.
-Proof.
-  intros Hd Hd' Ha Hp. unfold nonces_frame. rewrite forallb_forall. intros i' _.
-  rewrite forallb_forall. intros d _. rewrite forallb_forall. intros t _.
-  destruct (exc i' d t) eqn:Ex; [reflexivity|]. cbn [orb].
-  rewrite (nonce_at_eq h w i' d t Hd), (nonce_at_eq h w' i' d t Hd'). specialize (Ha i').
-  destruct (aget N.eqb i' (w_issuers w)) as [s|]; destruct (aget N.eqb i' (w_issuers w')) as [s'|]; try contradiction; [|reflexivity].
-  destruct (existsb (N.eqb d) (h_idents h)); [|reflexivity]. destruct (existsb (Z.eqb t) (h_topics h)); [|reflexivity].
-  cbn [opt_eqb]. apply Z.eqb_eq. symmetry. destruct (N.eqb i' i) eqn:Ei.
-  - apply N.eqb_eq in Ei. subst i'. apply (Hp s s' d t Ha Ex).
-  - subst s'. reflexivity.
-Qed.
-
-Lemma revocations_frame_model h w w' i exc (P : issuer -> issuer -> Prop) : dom h w -> dom h w' ->
-  issuers_agree w w' i P ->
-  (forall s s' q, P s s' -> exc i q = false ->
-     is_claim_revoked s' (fst (fst q)) (snd (fst q)) (snd q) = is_claim_revoked s (fst (fst q)) (snd (fst q)) (snd q)) ->
-  revocations_frame h (observe h w) (observe h w') exc = true.
-Proof.
-  intros Hd Hd' Ha Hp. unfold revocations_frame. rewrite forallb_forall. intros i' _.
-  rewrite forallb_forall. intros q _.
-  destruct (exc i' q) eqn:Ex; [reflexivity|]. cbn [orb].
-  rewrite (revoked_at_eq h w i' q Hd), (revoked_at_eq h w' i' q Hd'). specialize (Ha i').
-  destruct (aget N.eqb i' (w_issuers w)) as [s|]; destruct (aget N.eqb i' (w_issuers w')) as [s'|]; try contradiction; [|reflexivity].
-  destruct (existsb (rkey_eqb q) (h_revq h)); [|reflexivity].
-  cbn [opt_eqb]. apply Bool.eqb_true_iff. symmetry. destruct (N.eqb i' i) eqn:Ei.
-  - apply N.eqb_eq in Ei. subst i'. apply (Hp s s' q Ha Ex).
-  - subst s'. reflexivity.
-Qed.
-
-Definition is_time (k : call) : bool := match k with Advance _ | Ledger _ _ => true | _ => false end.
-
-Lemma mon_call_model_core h w k prev : is_time k = false -> dom h w -> (prev = None \/ prev = Some (observe h w)) ->
-  let wo := step (cfg_of h) w k in
-  dom h (fst wo) -> mon_call h prev k (snd wo) (observe h (fst wo)) = true.
-Proof.
-  intros Hnt Hd Hp wo Hd'. unfold mon_call. destruct k; try reflexivity; try discriminate.
-  - (* Invalidate *)
-    destruct (snd wo) eqn:Eo; [|reflexivity]. destruct Hp as [-> | ->]; [reflexivity|].
-    subst wo. cbn [step] in *. unfold upd in *.
-    destruct (the_issuer w i) as [s|] eqn:Es; cbn [bind fst snd] in *; [|discriminate].
-    destruct (invalidate_claim_signatures s d topic) as [s1|] eqn:Ei; cbn [fst snd] in *; [|discriminate].
-    destruct (nonce_after_invalidate _ _ _ _ Ei) as [E [_ [Hoth _]]].
-    pose proof (issuers_agree_set w i s s1 (fun a b => invalidate_claim_signatures a d topic = Ok b) Es Ei) as Hag.
-    rewrite !andb_true_iff. split; [split|].
-    + rewrite (nonce_at_eq h w i d topic Hd), (nonce_at_eq h _ i d topic Hd').
-      cbn [set_issuer w_issuers]. rewrite (aget_aset_eq _ N_eqb_spec). apply the_issuer_get in Es. rewrite Es.
-      destruct (existsb (N.eqb d) (h_idents h)); [|reflexivity]. destruct (existsb (Z.eqb topic) (h_topics h)); [|reflexivity].
-      rewrite E. apply Z.eqb_refl.
-    + apply (nonces_frame_model h w _ i _ _ Hd Hd' Hag). intros sa sb d' t' Hab Hex.
-      destruct (nonce_after_invalidate _ _ _ _ Hab) as [_ [_ [Ho _]]]. apply Ho.
-      intros Heq. inversion Heq. subst. rewrite !N.eqb_refl, Z.eqb_refl in Hex. discriminate.
-    + apply (revocations_frame_model h w _ i _ _ Hd Hd' Hag). intros sa sb q Hab _. eapply revoked_after_invalidate; eauto.
-  - (* SetRevoked *)
-    destruct (snd wo) eqn:Eo; [|reflexivity].
-    subst wo. cbn [step] in *. unfold upd in *.
-    destruct (the_issuer w i) as [s|] eqn:Es; cbn [bind fst snd] in *; [|discriminate].
-    pose proof (issuers_agree_set w i s _ (fun a b => b = set_claim_revoked a d topic data revoked) Es eq_refl) as Hag.
-    rewrite andb_true_iff. split.
-    + rewrite (revoked_at_eq h _ i (d, topic, data) Hd'). cbn [set_issuer w_issuers]. rewrite (aget_aset_eq _ N_eqb_spec).
-      destruct (existsb (rkey_eqb (d, topic, data)) (h_revq h)); [|reflexivity]. cbn [fst snd].
-      rewrite revoked_after_set, (eqb_refl_of _ rkey_eqb_spec). apply Bool.eqb_reflx.
-    + destruct Hp as [-> | ->]; [reflexivity|]. rewrite andb_true_iff. split.
-      * apply (nonces_frame_model h w _ i _ _ Hd Hd' Hag). intros sa sb d' t' -> _. reflexivity.
-      * apply (revocations_frame_model h w _ i _ _ Hd Hd' Hag). intros sa sb q -> Hex.
-        rewrite revoked_after_set. rewrite N.eqb_refl in Hex. cbn [andb] in Hex.
-        destruct q as [[qd qt] qx]. cbn [fst snd]. rewrite Hex. reflexivity.
-Qed.
-
-(* ---------------- the model does not differ from itself ---------------- *)
+(* ---------------- reflexivity of the boolean equalities ---------------- *)
 Lemma list_eqb_refl {A} (e : A -> A -> bool) : (forall x, e x x = true) -> forall l, list_eqb e l l = true.
 Proof. intros H l. induction l; cbn; auto. rewrite H, IHl. reflexivity. Qed.
 Lemma res_eqb_refl {A} (e : A -> A -> bool) : (forall x, e x x = true) -> forall r, res_eqb e r r = true.
@@ -641,55 +424,26 @@ Lemma list_eqb_map2 {A B} (e : B -> B -> bool) (f g : A -> B) l :
   (forall x, e (f x) (g x) = true) -> list_eqb e (map f l) (map g l) = true.
 Proof. intros H. induction l; cbn; auto. rewrite H, IHl. reflexivity. Qed.
 
-(* a step that only moves the clock leaves every stored item observed as before *)
-Lemma static_model h w w' :
-  w_ctis w' = w_ctis w -> w_irss w' = w_irss w -> w_idents w' = w_idents w -> w_issuers w' = w_issuers w ->
-  w_vcti w' = w_vcti w -> w_virs w' = w_virs w -> static_eqb (observe h w) (observe h w') = true.
+
+Lemma cti_obs_eqb_refl x : cti_obs_eqb x x = true.
 Proof.
-  intros E1 E2 E3 E4 E5 E6. unfold static_eqb, observe. cbn [o_ctis o_irss o_idents o_issuers o_ver vo_cti vo_irs].
-  rewrite E1, E2, E3, E4, E5, E6.
-  assert (H1 : forall x, cti_obs_eqb x x = true) by (intros x; pose proof (obs_eqb_refl (OBS 0 [x] [] [] [] (VO None None []))) as X;
-    unfold obs_eqb in X; cbn in X; rewrite !andb_true_r in X; exact X).
-  assert (H2 : forall x, irs_obs_eqb x x = true) by (intros x; pose proof (obs_eqb_refl (OBS 0 [] [x] [] [] (VO None None []))) as X;
-    unfold obs_eqb in X; cbn in X; rewrite !andb_true_r in X; exact X).
-  assert (H4 : forall x, issuer_obs_eqb x x = true) by (intros x; pose proof (obs_eqb_refl (OBS 0 [] [] [] [x] (VO None None []))) as X;
-    unfold obs_eqb in X; cbn in X; rewrite !andb_true_r in X; exact X).
-  rewrite (list_eqb_refl _ H1), (list_eqb_refl _ H2), (list_eqb_refl _ H4), !(opt_eqb_refl _ N.eqb_refl). cbn [andb].
-  rewrite !andb_true_r. apply list_eqb_map2. intros d.
-  unfold observe_ident. cbn [do_ids do_claims]. rewrite (list_eqb_refl _ (list_eqb_refl _ cid_eqb_refl)). cbn [andb].
-  rewrite !map_map. apply list_eqb_map2. intros i. rewrite !map_map. apply list_eqb_map2. intros t.
-  unfold observe_cell. destruct (get_claim _ (i, t)) as [cl|]; cbn [strip_cd]; [|reflexivity].
-  cbn [cd_claim cd_info]. unfold the_issuer. rewrite E4. cbn [opt_eqb].
-  apply (pair_eqb_refl _ _ claim_eqb_refl (opt_eqb_refl _ info_eqb_refl)).
+  pose proof (obs_eqb_refl (OBS 0 [x] [] [] [] (VO None None []))) as X.
+  unfold obs_eqb in X. cbn in X. rewrite !andb_true_r in X. exact X.
+Qed.
+Lemma irs_obs_eqb_refl x : irs_obs_eqb x x = true.
+Proof.
+  pose proof (obs_eqb_refl (OBS 0 [] [x] [] [] (VO None None []))) as X.
+  unfold obs_eqb in X. cbn in X. rewrite !andb_true_r in X. exact X.
 Qed.
 
-Lemma mon_call_model h w k prev : dom h w -> (prev = None \/ prev = Some (observe h w)) ->
-  let wo := step (cfg_of h) w k in
-  dom h (fst wo) -> mon_call h prev k (snd wo) (observe h (fst wo)) = true.
-Proof.
-  intros Hd Hp wo Hd'. destruct (is_time k) eqn:Et; [|apply mon_call_model_core; auto].
-  destruct k; try discriminate; subst wo; cbn [step fst snd mon_call];
-    (destruct Hp as [-> | ->]; [reflexivity | apply static_model; reflexivity]).
-Qed.
-
-Lemma observe_set_revq h w : observe (set_revq h (revq_of (observe h w))) w = observe h w.
-Proof.
-  destruct h as [net now0 xdr sigs mt mi mk mr mc ctis irss idents issuers accounts iaddrs topics keys revq].
-  unfold revq_of. cbn [observe o_issuers h_issuers].
-  destruct issuers as [|a rest]; [reflexivity|].
-  cbn [map observe_issuer so_revoked h_revq]. rewrite map_map. cbn [fst]. rewrite map_id. reflexivity.
-Qed.
-
-Lemma diff_model h ks : forall w i, diff_from h w (model_trace h w ks) i = 0%N.
-Proof.
-  induction ks as [|k r IH]; intros w i; cbn [model_trace diff_from]; [reflexivity|].
-  destruct (step (cfg_of h) w k) as [w' out] eqn:E. cbn [fst snd].
-  rewrite observe_set_revq, outcome_eqb_refl, obs_eqb_refl. cbn [andb]. apply IH.
-Qed.
-
-(* ---------------- the ghost authorisations of the monitor ---------------- *)
-Definition ghost_ok (w : world) (g : list grant) : Prop :=
-  forall i k t r, In (i, k, t, r) g <-> exists s, aget N.eqb i (w_issuers w) = Some s /\ In (t, r) (pairs_of s k).
+(* ---------------- the ghost of the monitor agrees with the model's issuers ---------------- *)
+Record ghost_ok (w : world) (g : ghost) : Prop := {
+  go_grants : forall i k t r, In (i, k, t, r) (g_grants g) <->
+                exists s, aget N.eqb i (w_issuers w) = Some s /\ In (t, r) (pairs_of s k);
+  go_nonce : forall i s d t, aget N.eqb i (w_issuers w) = Some s -> gnonce g i d t = get_current_nonce_for s d t;
+  go_rev : forall i s q, aget N.eqb i (w_issuers w) = Some s ->
+             grev g i q = is_claim_revoked s (fst (fst q)) (snd (fst q)) (snd q)
+}.
 
 Lemma grant_eqb_spec : eqb_spec grant_eqb.
 Proof.
@@ -697,22 +451,58 @@ Proof.
   rewrite !andb_true_iff, !N.eqb_eq, Z.eqb_eq, (skey_eqb_spec k1 k2).
   split; [intros [[[-> ->] ->] ->]; reflexivity | intros E; inversion E; auto].
 Qed.
-
-Lemma ghost_ok_init h : ghost_ok (init_of h) [].
+Lemma gkey_eqb_spec : eqb_spec gkey_eqb.
 Proof.
-  intros i k t r. split; [intros []|]. intros [s [Es Hin]]. cbn in Es. apply aget_init in Es. subst s.
-  unfold pairs_of in Hin. cbn in Hin. destruct Hin.
+  intros [[a1 a2] a3] [[b1 b2] b3]. unfold gkey_eqb. cbn. rewrite !andb_true_iff, !N.eqb_eq, Z.eqb_eq.
+  split; [intros [[-> ->] ->]; reflexivity | intros E; inversion E; auto].
+Qed.
+Lemma rgkey_eqb_spec : eqb_spec rgkey_eqb.
+Proof.
+  intros [a1 a2] [b1 b2]. unfold rgkey_eqb. cbn. rewrite andb_true_iff, N.eqb_eq, (rkey_eqb_spec a2 b2).
+  split; [intros [-> ->]; reflexivity | intros E; inversion E; auto].
+Qed.
+
+Lemma ghost_ok_init h : ghost_ok (init_of h) ghost0.
+Proof.
+  constructor.
+  - intros i k t r. split; [intros []|]. intros [s [Es Hin]]. cbn in Es. apply aget_init in Es. subst s.
+    unfold pairs_of in Hin. cbn in Hin. destruct Hin.
+  - intros i s d t Es. cbn in Es. apply aget_init in Es. subst s. reflexivity.
+  - intros i s q Es. cbn in Es. apply aget_init in Es. subst s. reflexivity.
 Qed.
 Lemma ghost_ok_issuers w w' g : w_issuers w' = w_issuers w -> ghost_ok w g -> ghost_ok w' g.
-Proof. intros E H i k t r. rewrite E. apply H. Qed.
-Lemma ghost_ok_set_same w i s s' g : the_issuer w i = Ok s -> is_pairs s' = is_pairs s ->
+Proof. intros E [H1 H2 H3]. constructor; intros; rewrite E in *; auto. Qed.
+
+(* an issuer replaced by one with the same pairs, nonces and revocations *)
+Lemma ghost_ok_set_same w i s s' g : the_issuer w i = Ok s ->
+  is_pairs s' = is_pairs s -> is_nonce s' = is_nonce s -> is_revoked s' = is_revoked s ->
   ghost_ok w g -> ghost_ok (set_issuer w i s') g.
 Proof.
-  intros Es Ep H i' k t r. rewrite (H i' k t r). cbn [set_issuer w_issuers]. rewrite (aget_aset _ N_eqb_spec).
-  apply the_issuer_get in Es. destruct (N.eqb i' i) eqn:Ei; [|tauto].
-  apply N.eqb_eq in Ei. subst i'. unfold pairs_of. split.
-  - intros [s1 [E1 Hin]]. rewrite Es in E1. inversion E1. subst s1. exists s'. rewrite Ep. auto.
-  - intros [s1 [E1 Hin]]. inversion E1. subst s1. exists s. rewrite <- Ep. auto.
+  intros Es Ep En Er [H1 H2 H3]. apply the_issuer_get in Es. constructor.
+  - intros i' k t r. rewrite (H1 i' k t r). cbn [set_issuer w_issuers]. rewrite (aget_aset _ N_eqb_spec).
+    destruct (N.eqb i' i) eqn:Ei; [|tauto]. apply N.eqb_eq in Ei. subst i'. unfold pairs_of. split.
+    + intros [s1 [E1 Hin]]. rewrite Es in E1. inversion E1. subst s1. exists s'. rewrite Ep. auto.
+    + intros [s1 [E1 Hin]]. inversion E1. subst s1. exists s. rewrite <- Ep. auto.
+  - intros i' s1 d t. cbn [set_issuer w_issuers]. rewrite (aget_aset _ N_eqb_spec). destruct (N.eqb i' i) eqn:Ei; [|apply H2].
+    apply N.eqb_eq in Ei. subst i'. intros E1. inversion E1. subst s1. unfold get_current_nonce_for. rewrite En. apply (H2 i s d t Es).
+  - intros i' s1 q. cbn [set_issuer w_issuers]. rewrite (aget_aset _ N_eqb_spec). destruct (N.eqb i' i) eqn:Ei; [|apply H3].
+    apply N.eqb_eq in Ei. subst i'. intros E1. inversion E1. subst s1. unfold is_claim_revoked. rewrite Er. apply (H3 i s q Es).
+Qed.
+
+Lemma allow_key_revoked c s pk r sc t has s' : allow_key c s pk r sc t has = Ok s' -> is_revoked s' = is_revoked s.
+Proof.
+  unfold allow_key. destruct (is_nil pk); [discriminate|]. destruct has as [[]|]; cbn [bind negb]; try discriminate.
+  destruct (is_key_allowed_for_topic s pk sc t); cbn [bind].
+  - destruct (existsb _ _); [discriminate|]. destruct (_ <=? _); [discriminate|]. intros H. inversion H. reflexivity.
+  - destruct (c_max_keys c <=? _); cbn [bind]; [discriminate|].
+    destruct (existsb _ _); [discriminate|]. destruct (_ <=? _); [discriminate|]. intros H. inversion H. reflexivity.
+Qed.
+Lemma remove_key_revoked s pk r sc t s' : remove_key s pk r sc t = Ok s' -> is_revoked s' = is_revoked s.
+Proof.
+  unfold remove_key. intros H.
+  apply bind_ok in H. destruct H as [pairs [_ H]]. apply bind_ok in H. destruct H as [pairs' [_ H]].
+  destruct (existsb (fun p : Z * addr => fst p =? t) pairs'); [inversion H; reflexivity|].
+  apply bind_ok in H. destruct H as [ks [_ H]]. apply bind_ok in H. destruct H as [ks' [_ H]]. inversion H. reflexivity.
 Qed.
 
 Lemma step_ghost_ok c w k g : world_inv w -> ghost_ok w g ->
@@ -721,7 +511,7 @@ Proof.
   intros Hw Hg. destruct (step c w k) as [w' out] eqn:E. cbn [fst snd].
   assert (Hsame : forall w1, w_issuers w1 = w_issuers w -> ghost_ok w1 g) by (intros w1 F; apply (ghost_ok_issuers w); auto).
   destruct k; cbn [step] in E; cbn [ghost_step];
-    try (unfold pure in E; inversion E; subst; exact Hg);
+    try (unfold pure in E; inversion E; subst; destruct out; exact Hg);
     try (inversion E; subst; apply Hsame; reflexivity);
     try (unfold upd in E; match type of E with (match ?x with _ => _ end) = _ => destruct x end; inversion E; subst; solve [apply Hsame; reflexivity | exact Hg]).
   - (* AddClaim *)
@@ -730,90 +520,1096 @@ Proof.
     unfold upd in E. destruct (the_issuer w i) as [s|] eqn:Es; cbn [bind] in E; [|inversion E; subst; exact Hg].
     destruct (allow_key c s pk registry scheme topic (call_has_claim_topic w registry i topic)) as [s'|] eqn:Ea;
       inversion E; subst; [|exact Hg]. clear E.
-    pose proof (allow_key_pairs _ _ _ _ _ _ _ _ Ea) as Hp. apply the_issuer_get in Es.
-    intros i' k' t' r'. cbn [In set_issuer w_issuers]. rewrite (aget_aset _ N_eqb_spec), (Hg i' k' t' r'). split.
-    + intros [Hx|[s1 [E1 Hin]]].
-      * inversion Hx. subst. rewrite N.eqb_refl. exists s'. split; auto. rewrite Hp, (eqb_refl_of _ skey_eqb_spec).
-        apply In_app_single. right. reflexivity.
-      * destruct (N.eqb i' i) eqn:Ei; [|exists s1; auto].
-        apply N.eqb_eq in Ei. subst i'. rewrite Es in E1. inversion E1. subst s1. exists s'. split; auto.
-        rewrite Hp. destruct (skey_eqb k' (pk, scheme)) eqn:Ek; auto.
-        apply skey_eqb_spec in Ek. subst k'. apply In_app_single. left. exact Hin.
-    + destruct (N.eqb i' i) eqn:Ei; [|intros [s1 [E1 Hin]]; right; exists s1; auto].
-      apply N.eqb_eq in Ei. subst i'. intros [s1 [E1 Hin]]. inversion E1. subst s1. rewrite Hp in Hin.
-      destruct (skey_eqb k' (pk, scheme)) eqn:Ek; [|right; exists s; auto].
-      apply skey_eqb_spec in Ek. subst k'. apply In_app_single in Hin. destruct Hin as [Hin|Hin].
-      * right. exists s. auto.
-      * left. inversion Hin. reflexivity.
+    pose proof (allow_key_pairs _ _ _ _ _ _ _ _ Ea) as Hp. pose proof (allow_key_nonce _ _ _ _ _ _ _ _ Ea) as Hn.
+    pose proof (allow_key_revoked _ _ _ _ _ _ _ _ Ea) as Hr.
+    destruct Hg as [H1 H2 H3]. pose proof Es as Es0. apply the_issuer_get in Es. constructor; cbn [g_grants g_nonce g_rev].
+    + intros i' k' t' r'. cbn [In set_issuer w_issuers]. rewrite (aget_aset _ N_eqb_spec), (H1 i' k' t' r'). split.
+      * intros [Hx|[s1 [E1 Hin]]].
+        -- inversion Hx. subst. rewrite N.eqb_refl. exists s'. split; auto. rewrite Hp, (eqb_refl_of _ skey_eqb_spec).
+           apply In_app_single. right. reflexivity.
+        -- destruct (N.eqb i' i) eqn:Ei; [|exists s1; auto].
+           apply N.eqb_eq in Ei. subst i'. rewrite Es in E1. inversion E1. subst s1. exists s'. split; auto.
+           rewrite Hp. destruct (skey_eqb k' (pk, scheme)) eqn:Ek; auto.
+           apply skey_eqb_spec in Ek. subst k'. apply In_app_single. left. exact Hin.
+      * destruct (N.eqb i' i) eqn:Ei; [|intros [s1 [E1 Hin]]; right; exists s1; auto].
+        apply N.eqb_eq in Ei. subst i'. intros [s1 [E1 Hin]]. inversion E1. subst s1. rewrite Hp in Hin.
+        destruct (skey_eqb k' (pk, scheme)) eqn:Ek; [|right; exists s; auto].
+        apply skey_eqb_spec in Ek. subst k'. apply In_app_single in Hin. destruct Hin as [Hin|Hin].
+        -- right. exists s. auto.
+        -- left. inversion Hin. reflexivity.
+    + intros i' s1 d t. cbn [set_issuer w_issuers]. rewrite (aget_aset _ N_eqb_spec). destruct (N.eqb i' i) eqn:Ei; [|apply H2].
+      apply N.eqb_eq in Ei. subst i'. intros E1. inversion E1. subst s1. unfold get_current_nonce_for. rewrite Hn. apply (H2 i s d t Es).
+    + intros i' s1 q. cbn [set_issuer w_issuers]. rewrite (aget_aset _ N_eqb_spec). destruct (N.eqb i' i) eqn:Ei; [|apply H3].
+      apply N.eqb_eq in Ei. subst i'. intros E1. inversion E1. subst s1. unfold is_claim_revoked. rewrite Hr. apply (H3 i s q Es).
   - (* RemoveKey *)
     unfold upd in E. destruct (the_issuer w i) as [s|] eqn:Es; cbn [bind] in E; [|inversion E; subst; exact Hg].
     destruct (remove_key s pk registry scheme topic) as [s'|] eqn:Ea; inversion E; subst; [|exact Hg]. clear E.
     pose proof (wi_issuer w Hw _ _ (the_issuer_get _ _ _ Es)) as [Hk _].
-    pose proof (remove_key_pairs _ _ _ _ _ _ Hk Ea) as Hp. apply the_issuer_get in Es.
-    intros i' k' t' r'. rewrite filter_In, negb_true_iff, (eqb_false_of _ grant_eqb_spec), (Hg i' k' t' r').
-    cbn [set_issuer w_issuers]. rewrite (aget_aset _ N_eqb_spec). destruct (N.eqb i' i) eqn:Ei.
-    + apply N.eqb_eq in Ei. subst i'. split.
-      * intros [[s1 [E1 Hin]] Hne]. rewrite Es in E1. inversion E1. subst s1. exists s'. split; auto.
-        apply Hp. split; auto. intros [-> Hx]. inversion Hx. subst. apply Hne. reflexivity.
-      * intros [s1 [E1 Hin]]. inversion E1. subst s1. apply Hp in Hin. destruct Hin as [Hin Hne]. split; [exists s; auto|].
-        intros Hx. inversion Hx. subst. apply Hne. auto.
-    + apply N.eqb_neq in Ei. split; [tauto|]. intros Hx. split; auto. intros Hy. inversion Hy. congruence.
+    pose proof (remove_key_pairs _ _ _ _ _ _ Hk Ea) as Hp. pose proof (remove_key_nonce _ _ _ _ _ _ Ea) as Hn.
+    pose proof (remove_key_revoked _ _ _ _ _ _ Ea) as Hr.
+    destruct Hg as [H1 H2 H3]. apply the_issuer_get in Es. constructor; cbn [g_grants g_nonce g_rev].
+    + intros i' k' t' r'. rewrite filter_In, negb_true_iff, (eqb_false_of _ grant_eqb_spec), (H1 i' k' t' r').
+      cbn [set_issuer w_issuers]. rewrite (aget_aset _ N_eqb_spec). destruct (N.eqb i' i) eqn:Ei.
+      * apply N.eqb_eq in Ei. subst i'. split.
+        -- intros [[s1 [E1 Hin]] Hne]. rewrite Es in E1. inversion E1. subst s1. exists s'. split; auto.
+           apply Hp. split; auto. intros [-> Hx]. inversion Hx. subst. apply Hne. reflexivity.
+        -- intros [s1 [E1 Hin]]. inversion E1. subst s1. apply Hp in Hin. destruct Hin as [Hin Hne]. split; [exists s; auto|].
+           intros Hx. inversion Hx. subst. apply Hne. auto.
+      * apply N.eqb_neq in Ei. split; [tauto|]. intros Hx. split; auto. intros Hy. inversion Hy. congruence.
+    + intros i' s1 d t. cbn [set_issuer w_issuers]. rewrite (aget_aset _ N_eqb_spec). destruct (N.eqb i' i) eqn:Ei; [|apply H2].
+      apply N.eqb_eq in Ei. subst i'. intros E1. inversion E1. subst s1. unfold get_current_nonce_for. rewrite Hn. apply (H2 i s d t Es).
+    + intros i' s1 q. cbn [set_issuer w_issuers]. rewrite (aget_aset _ N_eqb_spec). destruct (N.eqb i' i) eqn:Ei; [|apply H3].
+      apply N.eqb_eq in Ei. subst i'. intros E1. inversion E1. subst s1. unfold is_claim_revoked. rewrite Hr. apply (H3 i s q Es).
   - (* Invalidate *)
     unfold upd in E. destruct (the_issuer w i) as [s|] eqn:Es; cbn [bind] in E; [|inversion E; subst; exact Hg].
-    destruct (invalidate_claim_signatures s d topic) as [s'|] eqn:Ea; inversion E; subst; [|exact Hg].
-    destruct (nonce_after_invalidate _ _ _ _ Ea) as [_ [_ [_ [_ [F2 _]]]]]. eapply ghost_ok_set_same; eauto.
+    destruct (invalidate_claim_signatures s d topic) as [s'|] eqn:Ea; inversion E; subst; [|exact Hg]. clear E.
+    destruct (nonce_after_invalidate _ _ _ _ Ea) as [En [_ [Hoth [_ [F2 F3]]]]].
+    destruct Hg as [H1 H2 H3]. pose proof Es as Es0. apply the_issuer_get in Es. constructor; cbn [g_grants g_nonce g_rev].
+    + intros i' k t r. rewrite (H1 i' k t r). cbn [set_issuer w_issuers]. rewrite (aget_aset _ N_eqb_spec).
+      destruct (N.eqb i' i) eqn:Ei; [|tauto]. apply N.eqb_eq in Ei. subst i'. unfold pairs_of. split.
+      * intros [s1 [E1 Hin]]. rewrite Es in E1. inversion E1. subst s1. exists s'. rewrite F2. auto.
+      * intros [s1 [E1 Hin]]. inversion E1. subst s1. exists s. rewrite <- F2. auto.
+    + intros i' s1 d' t'. unfold gnonce at 1. cbn [g_nonce]. rewrite (aget_aset _ gkey_eqb_spec).
+      cbn [set_issuer w_issuers]. rewrite (aget_aset _ N_eqb_spec).
+      match goal with |- context [gkey_eqb ?a ?b] => destruct (gkey_eqb a b) eqn:Ek end.
+      * apply gkey_eqb_spec in Ek. inversion Ek. subst. rewrite N.eqb_refl. intros E1. inversion E1. subst s1.
+        rewrite En, (H2 i s d topic Es). reflexivity.
+      * fold (gnonce g i' d' t'). destruct (N.eqb i' i) eqn:Ei.
+        -- apply N.eqb_eq in Ei. subst i'. intros E1. inversion E1. subst s1. rewrite (H2 i s d' t' Es). symmetry. apply Hoth.
+           intros Hx. inversion Hx. subst. rewrite (eqb_refl_of _ gkey_eqb_spec) in Ek. discriminate.
+        -- apply H2.
+    + intros i' s1 q. cbn [set_issuer w_issuers]. rewrite (aget_aset _ N_eqb_spec). destruct (N.eqb i' i) eqn:Ei; [|apply H3].
+      apply N.eqb_eq in Ei. subst i'. intros E1. inversion E1. subst s1. unfold is_claim_revoked. rewrite F3. apply (H3 i s q Es).
   - (* SetRevoked *)
-    unfold upd in E. destruct (the_issuer w i) as [s|] eqn:Es; cbn [bind] in E; inversion E; subst; [|exact Hg].
-    eapply ghost_ok_set_same; eauto.
+    unfold upd in E. destruct (the_issuer w i) as [s|] eqn:Es; cbn [bind] in E; inversion E; subst; [|exact Hg]. clear E.
+    destruct Hg as [H1 H2 H3]. pose proof Es as Es0. apply the_issuer_get in Es. constructor; cbn [g_grants g_nonce g_rev].
+    + intros i' k t r. rewrite (H1 i' k t r). cbn [set_issuer w_issuers]. rewrite (aget_aset _ N_eqb_spec).
+      destruct (N.eqb i' i) eqn:Ei; [|tauto]. apply N.eqb_eq in Ei. subst i'. unfold pairs_of. cbn [set_claim_revoked is_pairs]. split.
+      * intros [s1 [E1 Hin]]. rewrite Es in E1. inversion E1. subst s1. eauto.
+      * intros [s1 [E1 Hin]]. inversion E1. subst s1. eauto.
+    + intros i' s1 d' t'. cbn [set_issuer w_issuers]. rewrite (aget_aset _ N_eqb_spec). destruct (N.eqb i' i) eqn:Ei; [|apply H2].
+      apply N.eqb_eq in Ei. subst i'. intros E1. inversion E1. subst s1. apply (H2 i s d' t' Es).
+    + intros i' s1 q. unfold grev at 1. cbn [g_rev]. rewrite (aget_aset _ rgkey_eqb_spec).
+      cbn [set_issuer w_issuers]. rewrite (aget_aset _ N_eqb_spec).
+      match goal with |- context [rgkey_eqb ?a ?b] => destruct (rgkey_eqb a b) eqn:Ek end.
+      * apply rgkey_eqb_spec in Ek. inversion Ek. subst. rewrite N.eqb_refl. intros E1. inversion E1. subst s1.
+        cbn [fst snd]. rewrite revoked_after_set, (eqb_refl_of _ rkey_eqb_spec). reflexivity.
+      * fold (grev g i' q). destruct (N.eqb i' i) eqn:Ei; [|apply H3].
+        apply N.eqb_eq in Ei. subst i'. intros E1. inversion E1. subst s1. rewrite (H3 i s q Es), revoked_after_set.
+        destruct q as [[qd qt] qx]. cbn [fst snd].
+        destruct (rkey_eqb (qd, qt, qx) (d, topic, data)) eqn:Eq; [|reflexivity].
+        apply rkey_eqb_spec in Eq. rewrite Eq in Ek. unfold rgkey_eqb in Ek. cbn in Ek.
+        rewrite N.eqb_refl, (eqb_refl_of _ rkey_eqb_spec) in Ek. discriminate.
 Qed.
 
-Lemma keys_ok_model h w g : dom h w -> world_inv w -> ghost_ok w g -> keys_ok h (observe h w) g = true.
+(* ---------------- part 2 of the monitor: what the reference issuer confirms ---------------- *)
+Lemma is_claim_valid_bool c now self s d t scheme sig data :
+  is_ok (is_claim_valid c now self s d t scheme sig data) =
+  match extract_sig scheme sig with
+  | Fail => false
+  | Ok sd =>
+      is_key_allowed_for_topic s (sd_pk sd) scheme t
+      && match decode_expiration data with Ok (_, vu, _) => now <? vu | Fail => false end
+      && negb (is_claim_revoked s d t data)
+      && c_sigok c scheme (sd_pk sd)
+           (build_claim_message (c_net c) (c_xdr c self) (c_xdr c d) t (get_current_nonce_for s d t) data)
+           (sd_sig sd) (sd_rid sd)
+  end.
 Proof.
-  intros Hd Hw Hg. unfold keys_ok. cbn [observe o_issuers]. rewrite combine_map, forallb_forall.
-  intros [i so] Hin. apply in_map_iff in Hin. destruct Hin as [i' [E Hi]]. inversion E. subst i' so. clear E. cbn [fst snd].
-  assert (Hex : exists s, aget N.eqb i (w_issuers w) = Some s).
-  { apply (dm_issuer h w Hd) in Hi. destruct (aget N.eqb i (w_issuers w)) as [s|]; [eauto | congruence]. }
-  destruct Hex as [s Es]. rewrite (get_or_some _ _ _ _ Es).
-  destruct (wi_issuer w Hw _ _ Es) as [Hk _].
-  unfold observe_issuer at 1. cbn [so_keys]. rewrite combine_map, forallb_forall.
-  intros [t rk] Hin. apply in_map_iff in Hin. destruct Hin as [t' [E _]]. inversion E. subst t' rk. clear E. cbn [fst snd].
-  assert (Hl : (match get_keys_for_topic s t with Ok l => l | Fail => [] end) = keys_of s t).
-  { unfold get_keys_for_topic, keys_of. destruct (aget Z.eqb t (is_topics s)); reflexivity. }
-  rewrite Hl. apply andb_true_iff. split.
-  - rewrite forallb_forall. intros k Hk'. apply (ki_iff s Hk) in Hk'. destruct Hk' as [r Hr].
-    unfold granted. apply existsb_exists. exists (i, k, t, r). split.
-    + apply Hg. exists s. auto.
-    + unfold grant_for. rewrite N.eqb_refl, (eqb_refl_of _ skey_eqb_spec), Z.eqb_refl. reflexivity.
-  - rewrite forallb_forall. intros [[[i' k'] t'] r'] Hx. cbn [fst snd].
-    destruct (N.eqb i' i && (t' =? t)) eqn:Em; [|reflexivity]. cbn [negb orb].
-    apply andb_true_iff in Em. destruct Em as [E1 E2]. apply N.eqb_eq in E1. apply Z.eqb_eq in E2. subst i' t'.
-    apply Hg in Hx. destruct Hx as [s1 [Es1 Hr]]. rewrite Es in Es1. inversion Es1. subst s1.
-    apply (existsb_eqb_In _ skey_eqb_spec). apply (ki_iff s Hk). exists r'. exact Hr.
+  unfold is_claim_valid, claim_message, is_claim_expired.
+  destruct (extract_sig scheme sig) as [sd|]; cbn [bind]; [|reflexivity].
+  destruct (is_key_allowed_for_topic s (sd_pk sd) scheme t); cbn [guard bind andb]; [|reflexivity].
+  destruct (decode_expiration data) as [[[ca vu] p]|]; cbn [bind]; [|reflexivity].
+  rewrite (Z.ltb_antisym vu now). destruct (vu <=? now); cbn [negb guard bind andb]; [reflexivity|].
+  destruct (is_claim_revoked s d t data); cbn [negb guard bind andb]; [reflexivity|].
+  destruct (c_sigok c scheme (sd_pk sd) _ (sd_sig sd) (sd_rid sd)); reflexivity.
 Qed.
 
-Lemma mon_model h ks : forall w prev g i,
-  world_inv w -> dom h w -> closed h w -> ghost_ok w g -> forallb (wf_call h) ks = true ->
-  (prev = None \/ prev = Some (observe h w)) ->
-  mon_from h prev g (model_trace h w ks) i = 0%N.
+
+Section IssuerClauses.
+  Variable h : hdr.
+  Variable w : world.
+  Variable g : ghost.
+  Hypothesis Hd : dom h w.
+  Hypothesis Hw : world_inv w.
+  Hypothesis Hg : ghost_ok w g.
+  Local Notation c := (cfg_of h).
+  Local Notation o := (observe h w).
+
+  Lemma is_issuer_model i : mem_a i (h_issuers h) = is_ok (the_issuer w i).
+  Proof.
+    unfold the_issuer. destruct (aget N.eqb i (w_issuers w)) as [s|] eqn:E; cbn [of_option is_ok].
+    - apply mem_a_In. apply (dm_issuer h w Hd). congruence.
+    - apply mem_a_false. intros Hin. apply (dm_issuer h w Hd) in Hin. congruence.
+  Qed.
+
+  Lemma granted_model i s pk sc t : aget N.eqb i (w_issuers w) = Some s ->
+    granted (g_grants g) i (pk, sc) t = is_key_allowed_for_topic s pk sc t.
+  Proof.
+    intros Es. destruct (wi_issuer w Hw _ _ Es) as [Hk _]. apply eq_true_iff_eq.
+    rewrite (key_allowed_iff s pk sc t Hk). unfold granted. rewrite existsb_exists. split.
+    - intros [[[[i' k'] t'] r'] [Hin Hx]]. unfold grant_for in Hx.
+      apply andb_true_iff in Hx. destruct Hx as [Hx E3]. apply andb_true_iff in Hx. destruct Hx as [E1 E2].
+      apply N.eqb_eq in E1. apply skey_eqb_spec in E2. apply Z.eqb_eq in E3. subst.
+      apply (go_grants w g Hg) in Hin. destruct Hin as [s1 [Es1 Hr]]. rewrite Es in Es1. inversion Es1. subst s1. eauto.
+    - intros [r Hr]. exists (i, (pk, sc), t, r). split.
+      + apply (go_grants w g Hg). eauto.
+      + unfold grant_for. rewrite N.eqb_refl, (eqb_refl_of _ skey_eqb_spec), Z.eqb_refl. reflexivity.
+  Qed.
+
+  Lemma confirm_model i d t sc sg data :
+    confirm_expected h o g d i t sc sg data = is_ok (call_is_claim_valid c w i d t sc sg data).
+  Proof.
+    unfold confirm_expected, call_is_claim_valid. rewrite is_issuer_model. unfold the_issuer.
+    destruct (aget N.eqb i (w_issuers w)) as [s|] eqn:Es; cbn [of_option is_ok bind andb]; [|reflexivity].
+    rewrite is_claim_valid_bool. destruct (extract_sig sc sg) as [sd|]; [|reflexivity].
+    rewrite (granted_model i s _ _ _ Es), (go_rev w g Hg i s (d, t, data) Es), (go_nonce w g Hg i s d t Es). reflexivity.
+  Qed.
+
+  Lemma cell_ok_model d s i t : cell_ok h o g d i t (observe_cell c w d s i t) = true.
+  Proof.
+    unfold cell_ok. destruct (observe_cell c w d s i t) as [cd|] eqn:Ec; [|reflexivity].
+    unfold observe_cell in Ec. destruct (get_claim s (i, t)) as [cl|]; [|discriminate]. inversion Ec. subst cd. clear Ec.
+    cbn [cd_info cd_confirmed cd_claim]. rewrite confirm_model, Bool.eqb_reflx, andb_true_r.
+    unfold info_expected. rewrite is_issuer_model. unfold the_issuer.
+    destruct (aget N.eqb i (w_issuers w)) as [si|] eqn:Es; cbn [of_option is_ok]; [|reflexivity].
+    rewrite (go_rev w g Hg i si (d, t, cl_data cl) Es), (go_nonce w g Hg i si d t Es). cbn [fst snd opt_eqb].
+    destruct (extract_sig (cl_scheme cl) (cl_sig cl)) as [sd|].
+    - rewrite (granted_model i si _ _ _ Es). apply info_eqb_refl.
+    - apply info_eqb_refl.
+  Qed.
+
+  Lemma issuers_ok_model : issuers_ok h o g = true.
+  Proof.
+    unfold issuers_ok. cbn [observe o_idents]. rewrite combine_map, forallb_forall.
+    intros [d dob] Hin. apply in_map_iff in Hin. destruct Hin as [d' [E _]]. inversion E. subst d' dob. clear E. cbn [fst snd].
+    unfold observe_ident at 1. cbn [do_claims]. rewrite combine_map, forallb_forall.
+    intros [i row] Hin. apply in_map_iff in Hin. destruct Hin as [i' [E _]]. inversion E. subst i' row. clear E. cbn [fst snd].
+    rewrite combine_map, forallb_forall.
+    intros [t cell] Hin. apply in_map_iff in Hin. destruct Hin as [t' [E _]]. inversion E. subst t' cell. clear E. cbn [fst snd].
+    apply cell_ok_model.
+  Qed.
+
+  Lemma keys_ok_model : keys_ok h o g = true.
+  Proof.
+    unfold keys_ok. cbn [observe o_issuers]. rewrite combine_map, forallb_forall.
+    intros [i so] Hin. apply in_map_iff in Hin. destruct Hin as [i' [E Hi]]. inversion E. subst i' so. clear E. cbn [fst snd].
+    assert (Hex : exists s, aget N.eqb i (w_issuers w) = Some s).
+    { apply (dm_issuer h w Hd) in Hi. destruct (aget N.eqb i (w_issuers w)) as [s|]; [eauto | congruence]. }
+    destruct Hex as [s Es]. rewrite (get_or_some _ _ _ _ Es).
+    destruct (wi_issuer w Hw _ _ Es) as [Hk _].
+    rewrite !andb_true_iff. split; [split|].
+    - unfold observe_issuer at 1. cbn [so_keys]. rewrite combine_map, forallb_forall.
+      intros [t rk] Hin. apply in_map_iff in Hin. destruct Hin as [t' [E _]]. inversion E. subst t' rk. clear E. cbn [fst snd].
+      assert (Hl : (match get_keys_for_topic s t with Ok l => l | Fail => [] end) = keys_of s t).
+      { unfold get_keys_for_topic, keys_of. destruct (aget Z.eqb t (is_topics s)); reflexivity. }
+      rewrite Hl. apply andb_true_iff. split.
+      + rewrite forallb_forall. intros k Hk'. destruct k as [pk sc]. rewrite (granted_model i s pk sc t Es).
+        apply allowed_iff_keys. exact Hk'.
+      + rewrite forallb_forall. intros [[[i' k'] t'] r'] Hx. cbn [fst snd].
+        destruct (N.eqb i' i && (t' =? t)) eqn:Em; [|reflexivity]. cbn [negb orb].
+        apply andb_true_iff in Em. destruct Em as [E1 E2]. apply N.eqb_eq in E1. apply Z.eqb_eq in E2. subst i' t'.
+        apply (go_grants w g Hg) in Hx. destruct Hx as [s1 [Es1 Hr]]. rewrite Es in Es1. inversion Es1. subst s1.
+        apply (existsb_eqb_In _ skey_eqb_spec). apply (ki_iff s Hk). exists r'. exact Hr.
+    - unfold observe_issuer. cbn [so_nonce]. apply list_eqb_map2. intros d. apply list_eqb_map2. intros t.
+      rewrite (go_nonce w g Hg i s d t Es). apply Z.eqb_refl.
+    - unfold observe_issuer. cbn [so_revoked]. rewrite forallb_forall. intros [q v] Hin. apply in_map_iff in Hin.
+      destruct Hin as [q' [E _]]. inversion E. subst q' v. cbn [fst snd]. rewrite (go_rev w g Hg i s q Es). apply Bool.eqb_reflx.
+  Qed.
+End IssuerClauses.
+
+(* ---------------- part 3 of the monitor: the registry ---------------- *)
+Lemma registry_ok_model h ct : cti_inv ct -> cti_closed h ct -> registry_ok h (observe_cti h ct) = true.
 Proof.
-  induction ks as [|k r IH]; intros w prev g i Hw Hd Hc Hg Hwf Hp; cbn [model_trace mon_from]; [reflexivity|].
-  cbn [forallb] in Hwf. apply andb_true_iff in Hwf. destruct Hwf as [Hk Hr].
+  intros Hi [Hc1 Hc2]. unfold registry_ok. rewrite !andb_true_iff. split; [split; [split; [split|]|]|].
+  - unfold observe_cti. cbn [co_trusted co_issuers]. apply list_eqb_map2. intros i. apply Bool.eqb_reflx.
+  - unfold observe_cti. cbn [co_has co_itopics]. rewrite map_map. apply list_eqb_map2. intros i. apply list_eqb_map2. intros t.
+    unfold has_claim_topic. destruct (get_trusted_issuer_claim_topics ct i) as [l|]; cbn [bind rb_of]; [|reflexivity].
+    destruct (mem_z t l); reflexivity.
+  - unfold observe_cti. cbn [co_itopics co_issuers]. rewrite combine_map, forallb_forall.
+    intros [i r] Hin. apply in_map_iff in Hin. destruct Hin as [i' [E _]]. inversion E. subst i' r. cbn [fst snd].
+    apply Bool.eqb_true_iff. apply eq_true_iff_eq. rewrite mem_a_In, (ri_ipresent ct Hi).
+    unfold get_trusted_issuer_claim_topics. destruct (aget N.eqb i (ct_itopics ct)); cbn; split; congruence.
+  - rewrite forallb_forall. intros i Hiu. rewrite forallb_forall. intros t Htu.
+    apply Bool.eqb_true_iff. apply eq_true_iff_eq. rewrite trusted_for_model.
+    unfold observe_cti at 1 2. cbn [co_topics co_tissuers].
+    rw_lookup (at_key_map_in _ Z_eqb_spec (get_claim_topic_issuers ct) t _ Htu).
+    rewrite andb_true_iff, mem_z_In. unfold get_claim_topic_issuers.
+    unfold is_trusted_issuer. rewrite mem_a_In, has_claim_topic_true.
+    split.
+    + intros [Ht Hl]. destruct (aget Z.eqb t (ct_tissuers ct)) as [l|] eqn:El; cbn [of_option] in Hl; [|discriminate].
+      apply mem_a_In in Hl. assert (Hx : In i (tiss ct t)) by (unfold tiss; rewrite El; exact Hl).
+      repeat split; auto; [eapply listed_is_trusted; eauto | apply (ri_coherent ct Hi); exact Hx].
+    + intros [_ [_ [Htr Hx]]]. apply (ri_coherent ct Hi) in Hx. split.
+      * apply (ri_tpresent ct Hi). unfold tiss in Hx. destruct (aget Z.eqb t (ct_tissuers ct)); [discriminate | destruct Hx].
+      * unfold tiss in Hx. destruct (aget Z.eqb t (ct_tissuers ct)) as [l|]; cbn [of_option]; [apply mem_a_In; exact Hx | destruct Hx].
+  - unfold observe_cti at 1. cbn [co_map].
+    destruct (topics_and_issuers_reading ct Hi) as [m [Em [Hm1 _]]]. rewrite Em.
+    apply andb_true_iff. split.
+    + unfold observe_cti. cbn [co_topics co_tissuers]. rewrite forallb_forall. intros t Ht.
+      unfold get_claim_topics_and_issuers in Em. rewrite (topics_and_issuers_from_get _ _ _ _ Em t).
+      assert (mem_z t (ct_topics ct) = true) as -> by (apply mem_z_In; exact Ht).
+      rw_lookup (at_key_map_in _ Z_eqb_spec (get_claim_topic_issuers ct) t _ (Hc1 t Ht)).
+      unfold get_claim_topic_issuers. apply (ri_tpresent ct Hi) in Ht. unfold addr in *.
+      match goal with |- context [@aget ?K ?V ?e ?k ?ll] => destruct (@aget K V e k ll) as [l|] eqn:El end; [|exfalso; apply Ht; reflexivity]. cbn [of_option].
+      apply (list_eqb_spec _ N_eqb_spec). reflexivity.
+    + rewrite forallb_forall. intros [t l] Hin. cbn [fst]. unfold observe_cti. cbn [co_topics].
+      apply mem_z_In. apply (Hm1 t l). exact Hin.
+Qed.
+
+
+(* ---------------- the identity registry ---------------- *)
+Lemma irs_ok_model h r : irs_inv r -> irs_ok (observe_irs h r) = true.
+Proof.
+  intros Hi. unfold irs_ok, observe_irs. cbn [io_stored io_recovered].
+  assert (E : combine (map (stored_identity r) (h_accounts h)) (map (get_recovered_to r) (h_accounts h))
+              = map (fun a => (stored_identity r a, get_recovered_to r a)) (h_accounts h)).
+  { induction (h_accounts h); cbn; congruence. }
+  rewrite E, forallb_forall. intros [st rc] Hin. apply in_map_iff in Hin. destruct Hin as [a [Ea _]]. inversion Ea. subst st rc. cbn [fst snd].
+  destruct (get_recovered_to r a) eqn:Er; cbn [is_some negb orb]; [|reflexivity].
+  unfold stored_identity. rewrite (Hi a); [reflexivity | congruence].
+Qed.
+
+(* ---------------- the shape of the model's observation ---------------- *)
+Lemma len_is_map {A B} (f : A -> B) l : len_is (map f l) (length l) = true.
+Proof. unfold len_is. rewrite map_length. apply Nat.eqb_refl. Qed.
+Lemma forallb_map_true {A B} (f : A -> B) (P : B -> bool) l : (forall x, P (f x) = true) -> forallb P (map f l) = true.
+Proof. intros H. induction l; cbn; auto. rewrite H, IHl. reflexivity. Qed.
+
+Lemma shape_ok_model h w : shape_ok h (observe h w) = true.
+Proof.
+  unfold shape_ok, observe. cbn [o_ctis o_irss o_idents o_issuers o_ver vo_verify].
+  rewrite !len_is_map. cbn [andb].
+  rewrite !andb_true_iff. repeat split.
+  - apply forallb_map_true. intros a. unfold observe_cti. cbn [co_tissuers co_itopics co_trusted co_has].
+    rewrite !len_is_map. cbn [andb]. apply forallb_map_true. intros i. apply len_is_map.
+  - apply forallb_map_true. intros a. unfold observe_irs. cbn [io_stored io_recovered]. rewrite !len_is_map. reflexivity.
+  - apply forallb_map_true. intros a. unfold observe_ident. cbn [do_ids do_claims]. rewrite !len_is_map. cbn [andb].
+    apply forallb_map_true. intros i. apply len_is_map.
+  - apply forallb_map_true. intros a. unfold observe_issuer. cbn [so_keys so_regs]. rewrite !len_is_map. reflexivity.
+Qed.
+
+Definition irss_inv_w (w : world) : Prop := forall a s, aget N.eqb a (w_irss w) = Some s -> irs_inv s.
+
+Lemma mon_state_model h w g : world_inv w -> dom h w -> closed h w -> ghost_ok w g -> irss_inv w ->
+  mon_state h (observe h w) g = true.
+Proof.
+  intros Hw Hd Hc Hg Hr. unfold mon_state. rewrite !andb_true_iff. repeat split.
+  - apply shape_ok_model.
+  - apply verify_ok_model; auto.
+  - apply issuers_ok_model; auto.
+  - cbn [observe o_ctis]. apply forallb_map_true. intros a.
+    unfold get_or. destruct (aget N.eqb a (w_ctis w)) as [s|] eqn:E.
+    + apply registry_ok_model; [apply (wi_cti w Hw a s E) | apply (Hc a s E)].
+    + apply registry_ok_model; [apply cti_inv_init | split; intros x []].
+  - cbn [observe o_irss]. apply forallb_map_true. intros a.
+    unfold get_or. destruct (aget N.eqb a (w_irss w)) as [s|] eqn:E.
+    + apply irs_ok_model. apply (Hr a s E).
+    + apply irs_ok_model. apply irs_inv_init.
+  - apply keys_ok_model; auto.
+Qed.
+
+(* ---------------- calls: positional lists after an update ---------------- *)
+Lemma upd_at_map {K V} (e : K -> K -> bool) k (v : V) (f : K -> V) ks :
+  upd_at e k v ks (map f ks) = map (fun x => if e x k then v else f x) ks.
+Proof. unfold upd_at. rewrite combine_map, map_map. reflexivity. Qed.
+Lemma combine3_map {A B C} (f : A -> B) (g : A -> C) l :
+  combine l (combine (map f l) (map g l)) = map (fun a => (a, (f a, g a))) l.
+Proof. induction l; cbn; congruence. Qed.
+Lemma get_or_aset {S} (d0 : S) a c s' l : get_or d0 a (aset N.eqb c s' l) = if N.eqb a c then s' else get_or d0 a l.
+Proof. unfold get_or. rewrite (aget_aset _ N_eqb_spec). destruct (N.eqb a c); reflexivity. Qed.
+
+Lemma cell_claim c w d s i t :
+  option_map cd_claim (observe_cell c w d s i t) = match get_claim s (i, t) with Ok cl => Some cl | Fail => None end.
+Proof. unfold observe_cell. destruct (get_claim s (i, t)); reflexivity. Qed.
+Lemma claims_of_model h c w d s :
+  claims_of (observe_ident h c w d s)
+  = map (fun i => map (fun t => match get_claim s (i, t) with Ok cl => Some cl | Fail => None end) (h_topics h)) (h_iaddrs h).
+Proof.
+  unfold claims_of, observe_ident. cbn [do_claims]. rewrite map_map. apply map_ext. intros i.
+  rewrite map_map. apply map_ext. intros t. apply cell_claim.
+Qed.
+Lemma claims_upd_map h id v (F : addr -> Z -> option claim) :
+  claims_upd h id v (map (fun i => map (F i) (h_topics h)) (h_iaddrs h))
+  = map (fun i => map (fun t => if N.eqb i (fst id) && (t =? snd id) then v else F i t) (h_topics h)) (h_iaddrs h).
+Proof.
+  unfold claims_upd. rewrite combine_map, map_map. apply map_ext. intros i. cbn [fst snd].
+  rewrite combine_map, map_map. reflexivity.
+Qed.
+Lemma claims_eqb_refl (l : list (list (option claim))) : list_eqb (list_eqb (opt_eqb claim_eqb)) l l = true.
+Proof. apply list_eqb_refl. apply list_eqb_refl. apply opt_eqb_refl. apply claim_eqb_refl. Qed.
+Lemma ids_eqb_refl (l : list (list cid)) : list_eqb (list_eqb cid_eqb) l l = true.
+Proof. apply list_eqb_refl. apply list_eqb_refl. apply cid_eqb_refl. Qed.
+
+Lemma ident_static_world h w w' d s :
+  ident_static_eqb (observe_ident h (cfg_of h) w d s) (observe_ident h (cfg_of h) w' d s) = true.
+Proof.
+  unfold ident_static_eqb. fold (claims_of (observe_ident h (cfg_of h) w d s)) (claims_of (observe_ident h (cfg_of h) w' d s)).
+  rewrite !claims_of_model, claims_eqb_refl. unfold observe_ident. cbn [do_ids]. rewrite ids_eqb_refl. reflexivity.
+Qed.
+
+(* ---------------- the frame clause on the model ---------------- *)
+Lemma frame_model h w w' tg :
+  (forall a, (match tg with TCti c => N.eqb a c | _ => false end) = false -> get_or cti0 a (w_ctis w') = get_or cti0 a (w_ctis w)) ->
+  (forall a, (match tg with TIrs c => N.eqb a c | _ => false end) = false -> get_or irs0 a (w_irss w') = get_or irs0 a (w_irss w)) ->
+  (forall a, (match tg with TIdent c => N.eqb a c | _ => false end) = false -> get_or ident0 a (w_idents w') = get_or ident0 a (w_idents w)) ->
+  (forall a, (match tg with TIssuer c => N.eqb a c | _ => false end) = false ->
+             is_pairs (get_or issuer0 a (w_issuers w')) = is_pairs (get_or issuer0 a (w_issuers w))) ->
+  ((match tg with TLinks => true | _ => false end) = false -> w_vcti w' = w_vcti w /\ w_virs w' = w_virs w) ->
+  frame h (observe h w) (observe h w') tg = true.
+Proof.
+  intros H1 H2 H3 H4 H5. unfold frame, observe. cbn [o_ctis o_irss o_idents o_issuers o_ver vo_cti vo_irs].
+  rewrite !combine3_map, !andb_true_iff. repeat split.
+  - apply forallb_map_true. intros a. cbn [fst snd].
+    destruct (match tg with TCti c => N.eqb a c | _ => false end) eqn:E; [reflexivity|]. rewrite (H1 a E). apply cti_obs_eqb_refl.
+  - apply forallb_map_true. intros a. cbn [fst snd].
+    destruct (match tg with TIrs c => N.eqb a c | _ => false end) eqn:E; [reflexivity|]. rewrite (H2 a E). apply irs_obs_eqb_refl.
+  - apply forallb_map_true. intros a. cbn [fst snd].
+    destruct (match tg with TIdent c => N.eqb a c | _ => false end) eqn:E; [reflexivity|]. rewrite (H3 a E). apply ident_static_world.
+  - apply forallb_map_true. intros a. cbn [fst snd].
+    destruct (match tg with TIssuer c => N.eqb a c | _ => false end) eqn:E; [reflexivity|].
+    unfold issuer_static_eqb, observe_issuer. cbn [so_regs]. unfold get_registries. rewrite (H4 a E).
+    apply list_eqb_refl. apply res_eqb_refl. apply list_eqb_refl. apply N.eqb_refl.
+  - destruct (match tg with TLinks => true | _ => false end) eqn:E; [reflexivity|].
+    destruct (H5 eq_refl) as [E1 E2]. unfold links_eqb. cbn [o_ver vo_cti vo_irs]. rewrite E1, E2, !(opt_eqb_refl _ N.eqb_refl). reflexivity.
+Qed.
+
+Lemma frame_same h w tg : frame h (observe h w) (observe h w) tg = true.
+Proof. apply frame_model; intros; auto. Qed.
+Lemma frame_clock h w x tg :
+  frame h (observe h w)
+    (observe h {| w_now := x; w_ctis := w_ctis w; w_irss := w_irss w; w_idents := w_idents w;
+                  w_issuers := w_issuers w; w_vcti := w_vcti w; w_virs := w_virs w |}) tg = true.
+Proof. apply frame_model; intros; auto. Qed.
+Lemma frame_set_cti h w a s' : frame h (observe h w) (observe h (set_cti w a s')) (TCti a) = true.
+Proof.
+  apply frame_model; cbn [set_cti w_ctis w_irss w_idents w_issuers w_vcti w_virs]; intros; auto.
+  rewrite get_or_aset, H. reflexivity.
+Qed.
+Lemma frame_set_irs h w a s' : frame h (observe h w) (observe h (set_irs w a s')) (TIrs a) = true.
+Proof.
+  apply frame_model; cbn [set_irs w_ctis w_irss w_idents w_issuers w_vcti w_virs]; intros; auto.
+  rewrite get_or_aset, H. reflexivity.
+Qed.
+Lemma frame_set_ident h w a s' : frame h (observe h w) (observe h (set_ident w a s')) (TIdent a) = true.
+Proof.
+  apply frame_model; cbn [set_ident w_ctis w_irss w_idents w_issuers w_vcti w_virs]; intros; auto.
+  rewrite get_or_aset, H. reflexivity.
+Qed.
+Lemma frame_set_issuer h w a s' : frame h (observe h w) (observe h (set_issuer w a s')) (TIssuer a) = true.
+Proof.
+  apply frame_model; cbn [set_issuer w_ctis w_irss w_idents w_issuers w_vcti w_virs]; intros; auto.
+  rewrite get_or_aset, H. reflexivity.
+Qed.
+(* an issuer whose recorded pairs did not change *)
+Lemma frame_set_issuer_same h w a s s' : the_issuer w a = Ok s -> is_pairs s' = is_pairs s ->
+  frame h (observe h w) (observe h (set_issuer w a s')) TNone = true.
+Proof.
+  intros Es Ep. apply frame_model; cbn [set_issuer w_ctis w_irss w_idents w_issuers w_vcti w_virs]; intros; auto.
+  rewrite get_or_aset. destruct (N.eqb a0 a) eqn:E; [|reflexivity].
+  apply N.eqb_eq in E. subst a0. apply the_issuer_get in Es. rewrite (get_or_some _ _ _ _ Es). exact Ep.
+Qed.
+
+(* ---------------- what the registry operations do to the getters ---------------- *)
+Lemma add_claim_topic_fields c s t s' : add_claim_topic c s t = Ok s' ->
+  ct_topics s' = ct_topics s ++ [t] /\ ct_issuers s' = ct_issuers s /\ ct_itopics s' = ct_itopics s.
+Proof.
+  unfold add_claim_topic. destruct (_ <=? _); [discriminate|]. destruct (mem_z t (ct_topics s)); [discriminate|].
+  intros H. inversion H. auto.
+Qed.
+Lemma remove_claim_topic_fields s t s' : cti_inv s -> remove_claim_topic s t = Ok s' ->
+  In t (ct_topics s) /\ ct_topics s' = remove_first_or_same (Z.eqb t) (ct_topics s) /\ ct_issuers s' = ct_issuers s /\
+  forall i, get_trusted_issuer_claim_topics s' i = res_map (remove_first_or_same (Z.eqb t)) (get_trusted_issuer_claim_topics s i).
+Proof.
+  intros Hi H. unfold remove_claim_topic in H. apply bind_ok in H. destruct H as [tp [Er H]]. apply of_option_ok in Er.
+  assert (E1 : ct_topics s' = tp) by (inversion H; reflexivity).
+  assert (E2 : ct_issuers s' = ct_issuers s) by (inversion H; reflexivity).
+  assert (E3 : ct_itopics s' = drop_topic_of_issuers t (ct_issuers s) (ct_itopics s)) by (inversion H; reflexivity).
+  split; [eapply (remove_first_some_In _ Z_eqb_spec); eauto|]. split; [unfold remove_first_or_same; rewrite Er; exact E1|]. split; auto.
+  intros i. unfold get_trusted_issuer_claim_topics. rewrite E3, (drop_topic_spec t _ _ (ri_issuers_nodup s Hi)).
+  destruct (mem_a i (ct_issuers s)) eqn:Em.
+  - destruct (aget N.eqb i (ct_itopics s)); reflexivity.
+  - apply mem_a_false in Em. pose proof (untrusted_no_topics s Hi i Em) as E0. unfold itop in E0.
+    destruct (aget N.eqb i (ct_itopics s)); [subst; reflexivity | reflexivity].
+Qed.
+Lemma add_trusted_issuer_fields c s i ts s' : add_trusted_issuer c s i ts = Ok s' ->
+  ct_topics s' = ct_topics s /\ ct_issuers s' = ct_issuers s ++ [i] /\
+  forall j, get_trusted_issuer_claim_topics s' j = if N.eqb j i then Ok ts else get_trusted_issuer_claim_topics s j.
+Proof.
+  unfold add_trusted_issuer. destruct (negb _); [discriminate|]. destruct (_ <=? _); [discriminate|].
+  destruct (mem_a i (ct_issuers s)); [discriminate|]. intros H. apply bind_ok in H. destruct H as [m [_ H]].
+  assert (E3 : ct_itopics s' = aset N.eqb i ts (ct_itopics s)) by (inversion H; reflexivity).
+  split; [inversion H; reflexivity|]. split; [inversion H; reflexivity|].
+  intros j. unfold get_trusted_issuer_claim_topics. rewrite E3, (aget_aset _ N_eqb_spec). destruct (N.eqb j i); reflexivity.
+Qed.
+Lemma remove_trusted_issuer_fields s i s' : remove_trusted_issuer s i = Ok s' ->
+  In i (ct_issuers s) /\ ct_topics s' = ct_topics s /\ ct_issuers s' = remove_first_or_same (N.eqb i) (ct_issuers s) /\
+  forall j, get_trusted_issuer_claim_topics s' j = if N.eqb j i then Fail else get_trusted_issuer_claim_topics s j.
+Proof.
+  unfold remove_trusted_issuer. intros H. apply bind_ok in H. destruct H as [is' [Er H]]. apply of_option_ok in Er.
+  apply bind_ok in H. destruct H as [its [_ H]]. apply bind_ok in H. destruct H as [m [_ H]].
+  assert (E3 : ct_itopics s' = aremove N.eqb i (ct_itopics s)) by (inversion H; reflexivity).
+  split; [eapply (remove_first_some_In _ N_eqb_spec); eauto|]. split; [inversion H; reflexivity|].
+  split; [unfold remove_first_or_same; rewrite Er; inversion H; reflexivity|].
+  intros j. unfold get_trusted_issuer_claim_topics. rewrite E3, (aget_aremove _ N_eqb_spec). destruct (N.eqb j i); reflexivity.
+Qed.
+Lemma update_issuer_fields c s i ts s' : update_issuer_claim_topics c s i ts = Ok s' ->
+  In i (ct_issuers s) /\ ct_topics s' = ct_topics s /\ ct_issuers s' = ct_issuers s /\
+  forall j, get_trusted_issuer_claim_topics s' j = if N.eqb j i then Ok ts else get_trusted_issuer_claim_topics s j.
+Proof.
+  unfold update_issuer_claim_topics. destruct (negb (topics_arg_ok c s ts)); [discriminate|].
+  destruct (is_trusted_issuer s i) eqn:Et; cbn [negb]; [|discriminate]. intros H.
+  apply bind_ok in H. destruct H as [old [_ H]]. apply bind_ok in H. destruct H as [m1 [_ H]]. apply bind_ok in H. destruct H as [m2 [_ H]].
+  assert (E3 : ct_itopics s' = aset N.eqb i ts (ct_itopics s)) by (inversion H; reflexivity).
+  split; [apply mem_a_In; exact Et|]. split; [inversion H; reflexivity|]. split; [inversion H; reflexivity|].
+  intros j. unfold get_trusted_issuer_claim_topics. rewrite E3, (aget_aset _ N_eqb_spec). destruct (N.eqb j i); reflexivity.
+Qed.
+
+Lemma itopics_eqb_refl l : itopics_eqb l l = true.
+Proof. apply list_eqb_refl. apply res_eqb_refl. apply list_eqb_refl. apply Z.eqb_refl. Qed.
+Lemma zl_eqb_refl l : zl_eqb l l = true. Proof. apply list_eqb_refl. apply Z.eqb_refl. Qed.
+Lemma al_eqb_refl l : al_eqb l l = true. Proof. apply list_eqb_refl. apply N.eqb_refl. Qed.
+
+Section Effects.
+  Variable h : hdr.
+  Variable w : world.
+  Hypothesis Hd : dom h w.
+  Hypothesis Hw : world_inv w.
+  Local Notation c := (cfg_of h).
+
+  Lemma cti_effect_model a s s' f : the_cti w a = Ok s -> dom h (set_cti w a s') ->
+    f (observe_cti h s) (observe_cti h s') = true ->
+    cti_effect h (observe h w) (observe h (set_cti w a s')) a f = true.
+  Proof.
+    intros Es Hd' Hf. unfold cti_effect. rewrite (cti_at_model h w Hd), (cti_at_model h _ Hd').
+    apply the_cti_get in Es. rewrite Es. cbn [set_cti w_ctis]. rewrite (aget_aset_eq _ N_eqb_spec). exact Hf.
+  Qed.
+
+  Lemma effect_add_topic a t s s' : the_cti w a = Ok s -> add_claim_topic c s t = Ok s' -> dom h (set_cti w a s') ->
+    frame h (observe h w) (observe h (set_cti w a s')) (TCti a)
+    && cti_effect h (observe h w) (observe h (set_cti w a s')) a (fun pc oc =>
+          zl_eqb (co_topics oc) (co_topics pc ++ [t]) && al_eqb (co_issuers oc) (co_issuers pc)
+          && itopics_eqb (co_itopics oc) (co_itopics pc)) = true.
+  Proof.
+    intros Es Ha Hd'. rewrite frame_set_cti. cbn [andb]. apply (cti_effect_model a s s'); auto.
+    destruct (add_claim_topic_fields _ _ _ _ Ha) as [E1 [E2 E3]].
+    unfold observe_cti. cbn [co_topics co_issuers co_itopics]. unfold get_trusted_issuer_claim_topics.
+    rewrite E1, E2, E3, zl_eqb_refl, al_eqb_refl, itopics_eqb_refl. reflexivity.
+  Qed.
+
+  Lemma effect_remove_topic a t s s' : the_cti w a = Ok s -> remove_claim_topic s t = Ok s' -> dom h (set_cti w a s') ->
+    frame h (observe h w) (observe h (set_cti w a s')) (TCti a)
+    && cti_effect h (observe h w) (observe h (set_cti w a s')) a (fun pc oc =>
+          mem_z t (co_topics pc)
+          && zl_eqb (co_topics oc) (remove_first_or_same (Z.eqb t) (co_topics pc)) && al_eqb (co_issuers oc) (co_issuers pc)
+          && itopics_eqb (co_itopics oc) (map (res_map (remove_first_or_same (Z.eqb t))) (co_itopics pc))) = true.
+  Proof.
+    intros Es Ha Hd'. rewrite frame_set_cti. cbn [andb]. apply (cti_effect_model a s s'); auto.
+    pose proof (wi_cti w Hw _ _ (the_cti_get _ _ _ Es)) as Hi.
+    destruct (remove_claim_topic_fields _ _ _ Hi Ha) as [E0 [E1 [E2 E3]]].
+    unfold observe_cti. cbn [co_topics co_issuers co_itopics].
+    apply mem_z_In in E0. rewrite E0, E1, E2, zl_eqb_refl, al_eqb_refl. cbn [andb].
+    rewrite map_map. apply list_eqb_map2. intros i. rewrite E3. apply res_eqb_refl. apply list_eqb_refl. apply Z.eqb_refl.
+  Qed.
+
+  Lemma effect_add_issuer a i ts s s' : the_cti w a = Ok s -> add_trusted_issuer c s i ts = Ok s' -> dom h (set_cti w a s') ->
+    frame h (observe h w) (observe h (set_cti w a s')) (TCti a)
+    && cti_effect h (observe h w) (observe h (set_cti w a s')) a (fun pc oc =>
+          zl_eqb (co_topics oc) (co_topics pc) && al_eqb (co_issuers oc) (co_issuers pc ++ [i])
+          && itopics_eqb (co_itopics oc) (upd_at N.eqb i (Ok ts) (h_iaddrs h) (co_itopics pc))) = true.
+  Proof.
+    intros Es Ha Hd'. rewrite frame_set_cti. cbn [andb]. apply (cti_effect_model a s s'); auto.
+    destruct (add_trusted_issuer_fields _ _ _ _ _ Ha) as [E1 [E2 E3]].
+    unfold observe_cti. cbn [co_topics co_issuers co_itopics]. rewrite E1, E2, zl_eqb_refl, al_eqb_refl. cbn [andb].
+    rewrite upd_at_map. apply list_eqb_map2. intros j. rewrite E3. apply res_eqb_refl. apply list_eqb_refl. apply Z.eqb_refl.
+  Qed.
+
+  Lemma effect_remove_issuer a i s s' : the_cti w a = Ok s -> remove_trusted_issuer s i = Ok s' -> dom h (set_cti w a s') ->
+    frame h (observe h w) (observe h (set_cti w a s')) (TCti a)
+    && cti_effect h (observe h w) (observe h (set_cti w a s')) a (fun pc oc =>
+          mem_a i (co_issuers pc)
+          && zl_eqb (co_topics oc) (co_topics pc) && al_eqb (co_issuers oc) (remove_first_or_same (N.eqb i) (co_issuers pc))
+          && itopics_eqb (co_itopics oc) (upd_at N.eqb i Fail (h_iaddrs h) (co_itopics pc))) = true.
+  Proof.
+    intros Es Ha Hd'. rewrite frame_set_cti. cbn [andb]. apply (cti_effect_model a s s'); auto.
+    destruct (remove_trusted_issuer_fields _ _ _ Ha) as [E0 [E1 [E2 E3]]].
+    unfold observe_cti. cbn [co_topics co_issuers co_itopics]. apply mem_a_In in E0.
+    rewrite E0, E1, E2, zl_eqb_refl, al_eqb_refl. cbn [andb].
+    rewrite upd_at_map. apply list_eqb_map2. intros j. rewrite E3. apply res_eqb_refl. apply list_eqb_refl. apply Z.eqb_refl.
+  Qed.
+
+  Lemma effect_update_issuer a i ts s s' : the_cti w a = Ok s -> update_issuer_claim_topics c s i ts = Ok s' -> dom h (set_cti w a s') ->
+    frame h (observe h w) (observe h (set_cti w a s')) (TCti a)
+    && cti_effect h (observe h w) (observe h (set_cti w a s')) a (fun pc oc =>
+          mem_a i (co_issuers pc)
+          && zl_eqb (co_topics oc) (co_topics pc) && al_eqb (co_issuers oc) (co_issuers pc)
+          && itopics_eqb (co_itopics oc) (upd_at N.eqb i (Ok ts) (h_iaddrs h) (co_itopics pc))) = true.
+  Proof.
+    intros Es Ha Hd'. rewrite frame_set_cti. cbn [andb]. apply (cti_effect_model a s s'); auto.
+    destruct (update_issuer_fields _ _ _ _ _ Ha) as [E0 [E1 [E2 E3]]].
+    unfold observe_cti. cbn [co_topics co_issuers co_itopics]. apply mem_a_In in E0.
+    rewrite E0, E1, E2, zl_eqb_refl, al_eqb_refl. cbn [andb].
+    rewrite upd_at_map. apply list_eqb_map2. intros j. rewrite E3. apply res_eqb_refl. apply list_eqb_refl. apply Z.eqb_refl.
+  Qed.
+End Effects.
+
+(* ---------------- identity registry and claim store effects ---------------- *)
+Lemma stored_eqb_refl l : list_eqb (res_eqb N.eqb) l l = true.
+Proof. apply list_eqb_refl. apply res_eqb_refl. apply N.eqb_refl. Qed.
+Lemma recov_eqb_refl l : list_eqb (opt_eqb N.eqb) l l = true.
+Proof. apply list_eqb_refl. apply opt_eqb_refl. apply N.eqb_refl. Qed.
+
+Section Effects2.
+  Variable h : hdr.
+  Variable w : world.
+  Hypothesis Hd : dom h w.
+  Local Notation c := (cfg_of h).
+
+  Lemma irs_effect_model a s s' f : the_irs w a = Ok s -> dom h (set_irs w a s') ->
+    f (observe_irs h s) (observe_irs h s') = true ->
+    irs_effect h (observe h w) (observe h (set_irs w a s')) a f = true.
+  Proof.
+    intros Es Hd' Hf. unfold irs_effect. rewrite (irs_at_model h w Hd), (irs_at_model h _ Hd').
+    unfold the_irs in Es. apply of_option_ok in Es. rewrite Es. cbn [set_irs w_irss]. rewrite (aget_aset_eq _ N_eqb_spec). exact Hf.
+  Qed.
+  Lemma ident_effect_model a s s' f : the_ident w a = Ok s -> dom h (set_ident w a s') ->
+    f (observe_ident h c w a s) (observe_ident h c (set_ident w a s') a s') = true ->
+    ident_effect h (observe h w) (observe h (set_ident w a s')) a f = true.
+  Proof.
+    intros Es Hd' Hf. unfold ident_effect. rewrite (ident_at_model h w Hd), (ident_at_model h _ Hd').
+    apply the_ident_get in Es. rewrite Es. cbn [set_ident w_idents]. rewrite (aget_aset_eq _ N_eqb_spec). exact Hf.
+  Qed.
+
+  Lemma effect_set_identity r a d s s' : the_irs w r = Ok s -> dom h (set_irs w r s') ->
+    ir_identity s' = aset N.eqb a d (ir_identity s) -> ir_recovered s' = ir_recovered s ->
+    frame h (observe h w) (observe h (set_irs w r s')) (TIrs r)
+    && irs_effect h (observe h w) (observe h (set_irs w r s')) r (fun pc oc =>
+          list_eqb (res_eqb N.eqb) (io_stored oc) (upd_at N.eqb a (Ok d) (h_accounts h) (io_stored pc))
+          && list_eqb (opt_eqb N.eqb) (io_recovered oc) (io_recovered pc)) = true.
+  Proof.
+    intros Es Hd' E1 E2. rewrite frame_set_irs. cbn [andb]. apply (irs_effect_model r s s'); auto.
+    unfold observe_irs. cbn [io_stored io_recovered]. unfold get_recovered_to. rewrite E2, recov_eqb_refl, andb_true_r.
+    rewrite upd_at_map. apply list_eqb_map2. intros x. unfold stored_identity. rewrite E1, (aget_aset _ N_eqb_spec).
+    destruct (N.eqb x a); apply res_eqb_refl; apply N.eqb_refl.
+  Qed.
+
+  Lemma effect_remove_identity r a s s' : the_irs w r = Ok s -> remove_identity s a = Ok s' -> dom h (set_irs w r s') ->
+    In a (h_accounts h) ->
+    frame h (observe h w) (observe h (set_irs w r s')) (TIrs r)
+    && irs_effect h (observe h w) (observe h (set_irs w r s')) r (fun pc oc =>
+          match at_key N.eqb a (h_accounts h) (io_stored pc) with Some (Ok _) => true | _ => false end
+          && list_eqb (res_eqb N.eqb) (io_stored oc) (upd_at N.eqb a Fail (h_accounts h) (io_stored pc))
+          && list_eqb (opt_eqb N.eqb) (io_recovered oc) (io_recovered pc)) = true.
+  Proof.
+    intros Es Ha Hd' Hin. rewrite frame_set_irs. cbn [andb]. apply (irs_effect_model r s s'); auto.
+    unfold remove_identity in Ha. apply bind_ok in Ha. destruct Ha as [d0 [E0 Ha]]. apply bind_ok in Ha. destruct Ha as [p0 [_ Ha]].
+    assert (E1 : ir_identity s' = aremove N.eqb a (ir_identity s)) by (inversion Ha; reflexivity).
+    assert (E2 : ir_recovered s' = ir_recovered s) by (inversion Ha; reflexivity).
+    unfold observe_irs. cbn [io_stored io_recovered]. unfold get_recovered_to. rewrite E2, recov_eqb_refl, andb_true_r.
+    rw_lookup (at_key_map_in _ N_eqb_spec (stored_identity s) a _ Hin). rewrite E0. cbn [andb].
+    rewrite upd_at_map. apply list_eqb_map2. intros x. unfold stored_identity. rewrite E1, (aget_aremove _ N_eqb_spec).
+    destruct (N.eqb x a); apply res_eqb_refl; apply N.eqb_refl.
+  Qed.
+
+  Lemma effect_recover_identity r old new s s' : the_irs w r = Ok s -> recover_identity s old new = Ok s' -> dom h (set_irs w r s') ->
+    In old (h_accounts h) ->
+    frame h (observe h w) (observe h (set_irs w r s')) (TIrs r)
+    && irs_effect h (observe h w) (observe h (set_irs w r s')) r (fun pc oc =>
+          match at_key N.eqb old (h_accounts h) (io_stored pc) with
+          | Some (Ok d) =>
+              list_eqb (res_eqb N.eqb) (io_stored oc)
+                (upd_at N.eqb old Fail (h_accounts h) (upd_at N.eqb new (Ok d) (h_accounts h) (io_stored pc)))
+          | _ => false
+          end
+          && list_eqb (opt_eqb N.eqb) (io_recovered oc) (upd_at N.eqb old (Some new) (h_accounts h) (io_recovered pc))) = true.
+  Proof.
+    intros Es Ha Hd' Hin. rewrite frame_set_irs. cbn [andb]. apply (irs_effect_model r s s'); auto.
+    unfold recover_identity in Ha. destruct (is_some (get_recovered_to s new)); [discriminate|].
+    apply bind_ok in Ha. destruct Ha as [d [E0 Ha]]. destruct (is_some (aget N.eqb new (ir_identity s))); [discriminate|].
+    apply bind_ok in Ha. destruct Ha as [p0 [_ Ha]].
+    assert (E1 : ir_identity s' = aremove N.eqb old (aset N.eqb new d (ir_identity s))) by (inversion Ha; reflexivity).
+    assert (E2 : ir_recovered s' = aset N.eqb old new (ir_recovered s)) by (inversion Ha; reflexivity).
+    unfold observe_irs. cbn [io_stored io_recovered].
+    rw_lookup (at_key_map_in _ N_eqb_spec (stored_identity s) old _ Hin). rewrite E0.
+    apply andb_true_iff. split.
+    - rewrite upd_at_map, upd_at_map. apply list_eqb_map2. intros x. unfold stored_identity.
+      rewrite E1, (aget_aremove _ N_eqb_spec), (aget_aset _ N_eqb_spec).
+      destruct (N.eqb x old); [reflexivity|]. destruct (N.eqb x new); apply res_eqb_refl; apply N.eqb_refl.
+    - rewrite upd_at_map. apply list_eqb_map2. intros x. unfold get_recovered_to. rewrite E2, (aget_aset _ N_eqb_spec).
+      destruct (N.eqb x old); apply opt_eqb_refl; apply N.eqb_refl.
+  Qed.
+
+  (* --- claim store --- *)
+  Lemma claim_cell_model d s id : id_in_universe h id = true ->
+    claim_cell h (observe_ident h c w d s) id = match get_claim s id with Ok cl => Some cl | Fail => None end.
+  Proof.
+    intros Hu. unfold id_in_universe in Hu. apply andb_true_iff in Hu. destruct Hu as [H1 H2].
+    apply mem_a_In in H1. apply mem_z_In in H2. destruct id as [i t]. cbn [fst snd] in *.
+    unfold claim_cell. cbn [fst snd]. rewrite (cell_at_model h w d s i t H1 H2). apply cell_claim.
+  Qed.
+  Lemma ids_upd_map t v (f : Z -> list cid) :
+    ids_upd h t v (map f (h_topics h)) = map (fun x => if x =? t then v else f x) (h_topics h).
+  Proof. unfold ids_upd. apply upd_at_map. Qed.
+
+  Lemma claims_after w' d s s' id v :
+    (forall x, get_claim s' x = if cid_eqb x id then (match v with Some cl => Ok cl | None => Fail end) else get_claim s x) ->
+    list_eqb (list_eqb (opt_eqb claim_eqb)) (claims_of (observe_ident h c w' d s'))
+      (claims_upd h id v (claims_of (observe_ident h c w d s))) = true.
+  Proof.
+    intros Hg. rewrite !claims_of_model, claims_upd_map. apply list_eqb_map2. intros i. apply list_eqb_map2. intros t.
+    rewrite Hg. unfold cid_eqb. cbn [fst snd]. destruct (N.eqb i (fst id) && (t =? snd id)).
+    - destruct v; apply opt_eqb_refl; apply claim_eqb_refl.
+    - apply opt_eqb_refl. apply claim_eqb_refl.
+  Qed.
+
+  Lemma effect_add_claim d cl valid s s' id : the_ident w d = Ok s -> add_claim s cl valid = Ok (s', id) ->
+    dom h (set_ident w d s') -> id_in_universe h (cl_issuer cl, cl_topic cl) = true ->
+    id = (cl_issuer cl, cl_topic cl) /\
+    frame h (observe h w) (observe h (set_ident w d s')) (TIdent d)
+    && ident_effect h (observe h w) (observe h (set_ident w d s')) d (fun pc oc =>
+          list_eqb (list_eqb (opt_eqb claim_eqb)) (claims_of oc) (claims_upd h (cl_issuer cl, cl_topic cl) (Some cl) (claims_of pc))
+          && list_eqb (list_eqb cid_eqb) (do_ids oc)
+               (if is_some (claim_cell h pc (cl_issuer cl, cl_topic cl)) then do_ids pc
+                else ids_upd h (cl_topic cl) (ids_at h pc (cl_topic cl) ++ [(cl_issuer cl, cl_topic cl)]) (do_ids pc))) = true.
+  Proof.
+    intros Es Ha Hd' Hu. unfold add_claim in Ha. destruct valid as [[]|]; cbn [bind] in Ha; [|discriminate].
+    set (id0 := (cl_issuer cl, cl_topic cl)) in *.
+    assert (Eid : id = id0) by (inversion Ha; reflexivity). split; auto.
+    assert (Ec : id_claims s' = aset cid_eqb id0 cl (id_claims s)) by (inversion Ha; reflexivity).
+    assert (Ex : id_index s' = if negb (is_some (aget cid_eqb id0 (id_claims s)))
+                                then aset Z.eqb (cl_topic cl) (get_claim_ids_by_topic s (cl_topic cl) ++ [id0]) (id_index s)
+                                else id_index s) by (inversion Ha; reflexivity).
+    rewrite frame_set_ident. cbn [andb]. apply (ident_effect_model d s s'); auto.
+    apply andb_true_iff. split.
+    - apply claims_after. intros x. unfold get_claim. rewrite Ec, (aget_aset _ cid_eqb_spec). destruct (cid_eqb x id0); reflexivity.
+    - rewrite (claim_cell_model d s id0 Hu). unfold get_claim at 1.
+      assert (Htu : In (cl_topic cl) (h_topics h)).
+      { unfold id_in_universe in Hu. apply andb_true_iff in Hu. destruct Hu as [_ H2]. apply mem_z_In in H2. exact H2. }
+      rewrite (ids_at_model h w d s _ Htu). unfold observe_ident. cbn [do_ids].
+      destruct (aget cid_eqb id0 (id_claims s)) as [old|] eqn:Eo; cbn [of_option is_some negb] in *.
+      + apply list_eqb_map2. intros t. unfold get_claim_ids_by_topic. rewrite Ex. apply list_eqb_refl. apply cid_eqb_refl.
+      + rewrite ids_upd_map. apply list_eqb_map2. intros t. unfold get_claim_ids_by_topic at 1. rewrite Ex, ids_after_set.
+        destruct (t =? cl_topic cl); apply list_eqb_refl; apply cid_eqb_refl.
+  Qed.
+
+  Lemma effect_remove_claim d id s s' : the_ident w d = Ok s -> remove_claim s id = Ok s' ->
+    dom h (set_ident w d s') -> id_in_universe h id = true ->
+    frame h (observe h w) (observe h (set_ident w d s')) (TIdent d)
+    && ident_effect h (observe h w) (observe h (set_ident w d s')) d (fun pc oc =>
+          match claim_cell h pc id with
+          | Some cl =>
+              list_eqb (list_eqb (opt_eqb claim_eqb)) (claims_of oc) (claims_upd h id None (claims_of pc))
+              && list_eqb (list_eqb cid_eqb) (do_ids oc)
+                   (ids_upd h (cl_topic cl) (remove_first_or_same (cid_eqb id) (ids_at h pc (cl_topic cl))) (do_ids pc))
+          | None => false
+          end) = true.
+  Proof.
+    intros Es Ha Hd' Hu. unfold remove_claim in Ha. apply bind_ok in Ha. destruct Ha as [cl [Eg Ha]].
+    assert (Ec : id_claims s' = aremove cid_eqb id (id_claims s)) by (inversion Ha; reflexivity).
+    assert (Ex : id_index s' = match remove_first (cid_eqb id) (get_claim_ids_by_topic s (cl_topic cl)) with
+                               | Some ids' => if is_nil ids' then aremove Z.eqb (cl_topic cl) (id_index s)
+                                              else aset Z.eqb (cl_topic cl) ids' (id_index s)
+                               | None => id_index s end) by (inversion Ha; reflexivity).
+    rewrite frame_set_ident. cbn [andb]. apply (ident_effect_model d s s'); auto.
+    rewrite (claim_cell_model d s id Hu), Eg. apply andb_true_iff. split.
+    - apply claims_after. intros x. unfold get_claim. rewrite Ec, (aget_aremove _ cid_eqb_spec). destruct (cid_eqb x id); reflexivity.
+    - unfold observe_ident. cbn [do_ids].
+      assert (Hids : forall t, get_claim_ids_by_topic s' t =
+                if t =? cl_topic cl then remove_first_or_same (cid_eqb id) (get_claim_ids_by_topic s (cl_topic cl))
+                else get_claim_ids_by_topic s t).
+      { intros t. unfold get_claim_ids_by_topic at 1. rewrite Ex. unfold remove_first_or_same.
+        destruct (remove_first (cid_eqb id) (get_claim_ids_by_topic s (cl_topic cl))) as [ids'|] eqn:Er.
+        - destruct (is_nil ids') eqn:En.
+          + destruct ids'; [|discriminate]. rewrite (aget_aremove _ Z_eqb_spec). destruct (t =? cl_topic cl); reflexivity.
+          + rewrite (aget_aset _ Z_eqb_spec). destruct (t =? cl_topic cl); reflexivity.
+        - fold (get_claim_ids_by_topic s t). destruct (t =? cl_topic cl) eqn:Et; auto. apply Z.eqb_eq in Et. subst. reflexivity. }
+      assert (Hat : forall t, In t (h_topics h) -> (if t =? cl_topic cl then remove_first_or_same (cid_eqb id) (ids_at h (observe_ident h c w d s) (cl_topic cl)) else get_claim_ids_by_topic s t)
+                               = get_claim_ids_by_topic s' t).
+      { intros t Ht. rewrite Hids. destruct (t =? cl_topic cl) eqn:Et; auto. apply Z.eqb_eq in Et. subst t.
+        rewrite (ids_at_model h w d s _ Ht). reflexivity. }
+      fold (observe_ident h c w d s). rewrite ids_upd_map.
+      (* pointwise over the topics of the universe *)
+      assert (Hl : forall l, (forall t, In t l -> In t (h_topics h)) ->
+                 list_eqb (list_eqb cid_eqb) (map (get_claim_ids_by_topic s') l)
+                   (map (fun x => if x =? cl_topic cl then remove_first_or_same (cid_eqb id) (ids_at h (observe_ident h c w d s) (cl_topic cl))
+                                  else get_claim_ids_by_topic s x) l) = true).
+      { induction l as [|t l IH]; intros Hsub; cbn; auto.
+        rewrite (Hat t (Hsub t (or_introl eq_refl))), (list_eqb_refl _ cid_eqb_refl), IH; auto. intros x Hx. apply Hsub. right. exact Hx. }
+      apply Hl. auto.
+  Qed.
+
+  Lemma effect_force_claim d id ix cl s : the_ident w d = Ok s ->
+    dom h (set_ident w d (force_claim s id ix cl)) -> id_in_universe h id = true -> In ix (h_topics h) ->
+    frame h (observe h w) (observe h (set_ident w d (force_claim s id ix cl))) (TIdent d)
+    && ident_effect h (observe h w) (observe h (set_ident w d (force_claim s id ix cl))) d (fun pc oc =>
+          list_eqb (list_eqb (opt_eqb claim_eqb)) (claims_of oc) (claims_upd h id (Some cl) (claims_of pc))
+          && list_eqb (list_eqb cid_eqb) (do_ids oc)
+               (if existsb (cid_eqb id) (ids_at h pc ix) then do_ids pc else ids_upd h ix (ids_at h pc ix ++ [id]) (do_ids pc))) = true.
+  Proof.
+    intros Es Hd' Hu Hix. rewrite frame_set_ident. cbn [andb]. apply (ident_effect_model d s _); auto.
+    apply andb_true_iff. split.
+    - apply claims_after. intros x. unfold get_claim, force_claim. cbn [id_claims]. rewrite (aget_aset _ cid_eqb_spec).
+      destruct (cid_eqb x id); reflexivity.
+    - rewrite (ids_at_model h w d s _ Hix). unfold observe_ident. cbn [do_ids]. unfold force_claim.
+      destruct (existsb (cid_eqb id) (get_claim_ids_by_topic s ix)) eqn:Ee.
+      + apply list_eqb_map2. intros t. unfold get_claim_ids_by_topic. cbn [id_index]. apply list_eqb_refl. apply cid_eqb_refl.
+      + rewrite ids_upd_map. apply list_eqb_map2. intros t. unfold get_claim_ids_by_topic at 1. cbn [id_index]. rewrite ids_after_set.
+        destruct (t =? ix); apply list_eqb_refl; apply cid_eqb_refl.
+  Qed.
+End Effects2.
+
+(* ---------------- every call of the model satisfies the call clauses ---------------- *)
+Lemma dom_set_cti h w a s s' : dom h w -> the_cti w a = Ok s -> dom h (set_cti w a s').
+Proof.
+  intros [D1 D2 D3 D4] Es. constructor; cbn [set_cti w_ctis w_irss w_idents w_issuers]; auto.
+  apply dom_ok_set; auto. apply the_cti_get in Es. congruence.
+Qed.
+Lemma dom_set_irs h w a s s' : dom h w -> the_irs w a = Ok s -> dom h (set_irs w a s').
+Proof.
+  intros [D1 D2 D3 D4] Es. constructor; cbn [set_irs w_ctis w_irss w_idents w_issuers]; auto.
+  apply dom_ok_set; auto. apply the_irs_get in Es. congruence.
+Qed.
+Lemma dom_set_ident h w a s s' : dom h w -> the_ident w a = Ok s -> dom h (set_ident w a s').
+Proof.
+  intros [D1 D2 D3 D4] Es. constructor; cbn [set_ident w_ctis w_irss w_idents w_issuers]; auto.
+  apply dom_ok_set; auto. apply the_ident_get in Es. congruence.
+Qed.
+Lemma dom_set_issuer h w a s s' : dom h w -> the_issuer w a = Ok s -> dom h (set_issuer w a s').
+Proof.
+  intros [D1 D2 D3 D4] Es. constructor; cbn [set_issuer w_ctis w_irss w_idents w_issuers]; auto.
+  apply dom_ok_set; auto. apply the_issuer_get in Es. congruence.
+Qed.
+
+Lemma id_universe_split h id : id_in_universe h id = true -> In (fst id) (h_iaddrs h) /\ In (snd id) (h_topics h).
+Proof. unfold id_in_universe. rewrite andb_true_iff, mem_a_In, mem_z_In. tauto. Qed.
+
+Definition is_time (k : call) : bool := match k with Advance _ | Ledger _ _ => true | _ => false end.
+
+Ltac clock_tac := unfold clock_ok; cbn [observe o_now set_cti set_irs set_ident set_issuer w_now]; rewrite ?Z.add_0_r; apply Z.eqb_refl.
+
+Section CallModel.
+  Variable h : hdr.
+  Variable w : world.
+  Variable g : ghost.
+  Hypothesis Hd : dom h w.
+  Hypothesis Hw : world_inv w.
+  Hypothesis Hg : ghost_ok w g.
+  Local Notation c := (cfg_of h).
+  Local Notation o := (observe h w).
+
+  (* a call that fails or only reads: same world *)
+  Lemma mc_same k out : is_time k = false -> ghost_step g k out = g -> answer_ok h o g k out = true ->
+    (forall v, out = Ok v -> effect_ok h o o k v = frame h o o TNone) ->
+    mon_call h o o g k out = true.
+  Proof.
+    intros Ht Eg Ha He. unfold mon_call. rewrite Ha, andb_true_r.
+    apply andb_true_iff. split.
+    - unfold clock_ok. destruct k; try discriminate; destruct out; rewrite ?Z.add_0_r; apply Z.eqb_refl.
+    - destruct out as [v|]; [rewrite (He v eq_refl)|]; apply frame_same.
+  Qed.
+End CallModel.
+
+Lemma frame_links h w x y :
+  frame h (observe h w)
+    (observe h {| w_now := w_now w; w_ctis := w_ctis w; w_irss := w_irss w; w_idents := w_idents w;
+                  w_issuers := w_issuers w; w_vcti := x; w_virs := y |}) TLinks = true.
+Proof. apply frame_model; intros; auto. discriminate. Qed.
+
+Section CallModel2.
+  Variable h : hdr.
+  Variable w : world.
+  Variable g : ghost.
+  Hypothesis Hd : dom h w.
+  Hypothesis Hw : world_inv w.
+  Hypothesis Hg : ghost_ok w g.
+  Local Notation cf := (cfg_of h).
+  Local Notation o := (observe h w).
+
+  Ltac fail_case := apply mc_same; [reflexivity | reflexivity | reflexivity | intros v Ev; discriminate].
+  Ltac split3 := unfold mon_call; rewrite !andb_true_iff; split; [split|].
+
+  Lemma in_accounts a : mem_a a (h_accounts h) = true -> In a (h_accounts h).
+  Proof. apply mem_a_In. Qed.
+
+  Lemma mon_call_model k : wf_call h k = true ->
+    mon_call h o (observe h (fst (step cf w k))) (ghost_step g k (snd (step cf w k))) k (snd (step cf w k)) = true.
+  Proof.
+    intros Hwf.
+    pose proof (step_ghost_ok cf w k g Hw Hg) as Hg'.
+    destruct k; cbn [step wf_call] in *.
+    - (* AddTopic *)
+      unfold upd in *. destruct (the_cti w c) as [s|] eqn:Es; cbn [bind] in *; [|fail_case].
+      destruct (add_claim_topic cf s t) as [s'|] eqn:Ea; cbn [fst snd] in *; [|fail_case].
+      split3; [clock_tac | reflexivity | cbn [effect_ok]; apply (effect_add_topic h w Hd c t s s'); eauto using dom_set_cti].
+    - (* RemoveTopic *)
+      unfold upd in *. destruct (the_cti w c) as [s|] eqn:Es; cbn [bind] in *; [|fail_case].
+      destruct (remove_claim_topic s t) as [s'|] eqn:Ea; cbn [fst snd] in *; [|fail_case].
+      split3; [clock_tac | reflexivity | cbn [effect_ok]; apply (effect_remove_topic h w Hd Hw c t s s'); eauto using dom_set_cti].
+    - (* AddIssuer *)
+      unfold upd in *. destruct (the_cti w c) as [s|] eqn:Es; cbn [bind] in *; [|fail_case].
+      destruct (add_trusted_issuer cf s i ts) as [s'|] eqn:Ea; cbn [fst snd] in *; [|fail_case].
+      split3; [clock_tac | reflexivity | cbn [effect_ok]; rewrite Hwf; cbn [andb]; apply (effect_add_issuer h w Hd c i ts s s'); eauto using dom_set_cti].
+    - (* RemoveIssuer *)
+      unfold upd in *. destruct (the_cti w c) as [s|] eqn:Es; cbn [bind] in *; [|fail_case].
+      destruct (remove_trusted_issuer s i) as [s'|] eqn:Ea; cbn [fst snd] in *; [|fail_case].
+      split3; [clock_tac | reflexivity | cbn [effect_ok]; rewrite Hwf; cbn [andb]; apply (effect_remove_issuer h w Hd c i s s'); eauto using dom_set_cti].
+    - (* UpdateIssuer *)
+      unfold upd in *. destruct (the_cti w c) as [s|] eqn:Es; cbn [bind] in *; [|fail_case].
+      destruct (update_issuer_claim_topics cf s i ts) as [s'|] eqn:Ea; cbn [fst snd] in *; [|fail_case].
+      split3; [clock_tac | reflexivity | cbn [effect_ok]; rewrite Hwf; cbn [andb]; apply (effect_update_issuer h w Hd c i ts s s'); eauto using dom_set_cti].
+    - (* AddIdentity *)
+      unfold upd in *. destruct (the_irs w r) as [s|] eqn:Es; cbn [bind] in *; [|fail_case].
+      destruct (add_identity cf s a d ncountries) as [s'|] eqn:Ea; cbn [fst snd] in *; [|fail_case].
+      split3; [clock_tac | reflexivity | cbn [effect_ok]; rewrite Hwf; cbn [andb]].
+      apply (effect_set_identity h w Hd r a d s s'); eauto using dom_set_irs.
+      + unfold add_identity in Ea. destruct (is_some _); [discriminate|]. destruct (_ =? 0); [discriminate|].
+        destruct (_ <? _); [discriminate|]. destruct (is_some _); [discriminate|]. inversion Ea. reflexivity.
+      + unfold add_identity in Ea. destruct (is_some _); [discriminate|]. destruct (_ =? 0); [discriminate|].
+        destruct (_ <? _); [discriminate|]. destruct (is_some _); [discriminate|]. inversion Ea. reflexivity.
+    - (* ModifyIdentity *)
+      unfold upd in *. destruct (the_irs w r) as [s|] eqn:Es; cbn [bind] in *; [|fail_case].
+      destruct (modify_identity s a d) as [s'|] eqn:Ea; cbn [fst snd] in *; [|fail_case].
+      split3; [clock_tac | reflexivity | cbn [effect_ok]; rewrite Hwf; cbn [andb]].
+      unfold modify_identity in Ea. apply bind_ok in Ea. destruct Ea as [d0 [_ Ea]].
+      apply (effect_set_identity h w Hd r a d s s'); eauto using dom_set_irs; inversion Ea; reflexivity.
+    - (* RemoveIdentity *)
+      unfold upd in *. destruct (the_irs w r) as [s|] eqn:Es; cbn [bind] in *; [|fail_case].
+      destruct (remove_identity s a) as [s'|] eqn:Ea; cbn [fst snd] in *; [|fail_case].
+      split3; [clock_tac | reflexivity | cbn [effect_ok]; rewrite Hwf; cbn [andb]].
+      apply (effect_remove_identity h w Hd r a s s'); eauto using dom_set_irs, in_accounts.
+    - (* RecoverIdentity *)
+      apply andb_true_iff in Hwf. destruct Hwf as [Hw1 Hw2].
+      unfold upd in *. destruct (the_irs w r) as [s|] eqn:Es; cbn [bind] in *; [|fail_case].
+      destruct (recover_identity s old new) as [s'|] eqn:Ea; cbn [fst snd] in *; [|fail_case].
+      split3; [clock_tac | reflexivity | cbn [effect_ok]; rewrite Hw1, Hw2; cbn [andb]].
+      apply (effect_recover_identity h w Hd r old new s s'); eauto using dom_set_irs, in_accounts.
+    - (* AddClaim *)
+      destruct (the_ident w d) as [s|] eqn:Es; cbn [bind] in *; [|fail_case].
+      destruct (add_claim s cl _) as [[s' id]|] eqn:Ea; cbn [fst snd] in *; [|fail_case].
+      destruct (effect_add_claim h w Hd d cl _ s s' id Es Ea (dom_set_ident h w d s s' Hd Es) Hwf) as [Eid He].
+      split3; [clock_tac | reflexivity | cbn [effect_ok]; rewrite Hwf, Eid; cbn [andb oval_eqb]; rewrite cid_eqb_refl; cbn [andb]; exact He].
+    - (* RemoveClaim *)
+      unfold upd in *. destruct (the_ident w d) as [s|] eqn:Es; cbn [bind] in *; [|fail_case].
+      destruct (remove_claim s id) as [s'|] eqn:Ea; cbn [fst snd] in *; [|fail_case].
+      split3; [clock_tac | reflexivity | cbn [effect_ok]; rewrite Hwf; cbn [andb]].
+      apply (effect_remove_claim h w Hd d id s s'); eauto using dom_set_ident.
+    - (* ForceClaim *)
+      apply andb_true_iff in Hwf. destruct Hwf as [Hw1 Hw2].
+      unfold upd in *. destruct (the_ident w d) as [s|] eqn:Es; cbn [bind fst snd] in *.
+      + assert (Hin : mem_a d (h_idents h) = true).
+        { apply mem_a_In. apply (dm_ident h w Hd). apply the_ident_get in Es. congruence. }
+        split3; [clock_tac | cbn [answer_ok is_ok]; rewrite Hin; reflexivity | cbn [effect_ok]; rewrite Hw1, Hw2; cbn [andb]].
+        apply (effect_force_claim h w Hd d id index_topic cl s); eauto using dom_set_ident. apply mem_z_In. exact Hw2.
+      + apply mc_same; [reflexivity | reflexivity | | intros v Ev; discriminate].
+        cbn [answer_ok is_ok ghost_step]. assert (Hin : mem_a d (h_idents h) = false); [|rewrite Hin; reflexivity].
+        apply mem_a_false. intros Hx. apply (dm_ident h w Hd) in Hx. unfold the_ident in Es.
+        destruct (aget N.eqb d (w_idents w)); [discriminate | congruence].
+    - (* AllowKey *)
+      unfold upd in *. destruct (the_issuer w i) as [s|] eqn:Es; cbn [bind] in *; [|fail_case].
+      destruct (allow_key cf s pk registry scheme topic _) as [s'|] eqn:Ea; cbn [fst snd] in *; [|fail_case].
+      split3; [clock_tac | reflexivity | cbn [effect_ok]; apply frame_set_issuer].
+    - (* RemoveKey *)
+      unfold upd in *. destruct (the_issuer w i) as [s|] eqn:Es; cbn [bind] in *; [|fail_case].
+      destruct (remove_key s pk registry scheme topic) as [s'|] eqn:Ea; cbn [fst snd] in *; [|fail_case].
+      split3; [clock_tac | reflexivity | cbn [effect_ok]; apply frame_set_issuer].
+    - (* Invalidate *)
+      pose proof (is_issuer_model h w Hd i) as Hiss. unfold is_issuer.
+      unfold upd in *. destruct (the_issuer w i) as [s|] eqn:Es; cbn [bind is_ok] in *.
+      + destruct (wi_issuer w Hw _ _ (the_issuer_get _ _ _ Es)) as [_ Hn].
+        destruct (invalidate_claim_signatures s d topic) as [s'|] eqn:Ea; cbn [fst snd] in *.
+        * destruct (nonce_after_invalidate _ _ _ _ Ea) as [En [Hmax [_ [_ [F2 _]]]]].
+          split3; [clock_tac | | cbn [effect_ok]; apply (frame_set_issuer_same h w i s s' Es F2)].
+          cbn [answer_ok is_ok]. unfold is_issuer. rewrite Hiss. cbn [andb].
+          assert (E : gnonce (ghost_step g (Invalidate i d topic) (Ok VUnit)) i d topic = get_current_nonce_for s' d topic).
+          { apply (go_nonce _ _ Hg' i s'). cbn [set_issuer w_issuers]. apply (aget_aset_eq _ N_eqb_spec). }
+          rewrite E, En. assert ((get_current_nonce_for s d topic + 1 <=? MAXU32) = true) as -> by (apply Z.leb_le; exact Hmax). reflexivity.
+        * apply mc_same; [reflexivity | reflexivity | | intros v Ev; discriminate].
+          cbn [answer_ok is_ok ghost_step]. unfold is_issuer. rewrite Hiss. cbn [andb].
+          cbn [ghost_step]. rewrite (go_nonce w g Hg i s d topic (the_issuer_get _ _ _ Es)).
+          unfold invalidate_claim_signatures, checked_add_u32, in_u32 in Ea. specialize (Hn d topic).
+          destruct ((0 <=? get_current_nonce_for s d topic + 1) && (get_current_nonce_for s d topic + 1 <=? MAXU32)) eqn:E; cbn in Ea; [discriminate|].
+          apply andb_false_iff in E. destruct E as [E|E]; [apply Z.leb_gt in E; lia|]. rewrite E. reflexivity.
+      + apply mc_same; [reflexivity | reflexivity | | intros v Ev; discriminate].
+        cbn [answer_ok is_ok ghost_step]. unfold is_issuer. rewrite Hiss. reflexivity.
+    - (* SetRevoked *)
+      pose proof (is_issuer_model h w Hd i) as Hiss.
+      unfold upd in *. destruct (the_issuer w i) as [s|] eqn:Es; cbn [bind is_ok fst snd] in *.
+      + split3; [clock_tac | cbn [answer_ok is_ok]; unfold is_issuer; rewrite Hiss; reflexivity
+                 | cbn [effect_ok]; apply (frame_set_issuer_same h w i s _ Es); reflexivity].
+      + apply mc_same; [reflexivity | reflexivity | | intros v Ev; discriminate].
+        cbn [answer_ok is_ok ghost_step]. unfold is_issuer. rewrite Hiss. reflexivity.
+    - (* IsClaimValid *)
+      unfold pure. cbn [fst snd]. apply mc_same; [reflexivity | reflexivity | | intros v Ev; reflexivity].
+      cbn [answer_ok ghost_step]. rewrite (confirm_model h w g Hd Hw Hg).
+      destruct (call_is_claim_valid cf w i d topic scheme sig data) as [[]|]; reflexivity.
+    - (* AuthorizedFor *)
+      unfold pure. cbn [fst snd]. apply mc_same; [reflexivity | reflexivity | | intros v Ev; reflexivity].
+      cbn [answer_ok ghost_step]. unfold is_issuer. rewrite (is_issuer_model h w Hd i).
+      destruct (the_issuer w i) as [s|]; cbn [bind is_ok]; [|reflexivity].
+      rewrite (cti_at_model h w Hd). unfold call_has_claim_topic, the_cti.
+      destruct (aget N.eqb registry (w_ctis w)) as [ct|]; cbn [of_option bind]; [|reflexivity].
+      unfold observe_cti. cbn [co_itopics].
+      rewrite (at_key_map _ N_eqb_spec (get_trusted_issuer_claim_topics ct)).
+      destruct (existsb (N.eqb i) (h_iaddrs h)); [|apply outcome_eqb_refl].
+      unfold has_claim_topic. destruct (get_trusted_issuer_claim_topics ct i); cbn [bind]; apply outcome_eqb_refl.
+    - (* Message *)
+      unfold pure. cbn [fst snd]. apply mc_same; [reflexivity | reflexivity | | intros v Ev; reflexivity].
+      cbn [answer_ok ghost_step]. unfold is_issuer. rewrite (is_issuer_model h w Hd i). unfold the_issuer.
+      destruct (aget N.eqb i (w_issuers w)) as [s|] eqn:Es; cbn [of_option bind is_ok]; [|reflexivity].
+      unfold claim_message. rewrite (go_nonce w g Hg i s d topic Es). apply outcome_eqb_refl.
+    - (* Identifier *)
+      unfold pure. cbn [fst snd]. apply mc_same; [reflexivity | reflexivity | | intros v Ev; reflexivity].
+      cbn [answer_ok ghost_step]. unfold is_issuer. rewrite (is_issuer_model h w Hd i).
+      destruct (the_issuer w i) as [s|]; cbn [bind is_ok]; [|reflexivity]. apply outcome_eqb_refl.
+    - (* Extract *)
+      unfold pure. cbn [fst snd]. apply mc_same; [reflexivity | reflexivity | | intros v Ev; reflexivity].
+      cbn [answer_ok ghost_step]. unfold is_issuer. rewrite (is_issuer_model h w Hd i).
+      destruct (the_issuer w i) as [s|]; cbn [bind is_ok]; [|reflexivity].
+      destruct (extract_sig scheme sig); cbn [bind res_map]; apply outcome_eqb_refl.
+    - (* Encode *)
+      unfold pure. cbn [fst snd]. apply mc_same; [reflexivity | reflexivity | | intros v Ev; reflexivity].
+      cbn [answer_ok ghost_step]. unfold is_issuer. rewrite (is_issuer_model h w Hd i).
+      destruct (the_issuer w i) as [s|]; cbn [bind is_ok]; [|reflexivity].
+      destruct (encode_expiration created_at valid_until payload); cbn [bind res_map]; apply outcome_eqb_refl.
+    - (* Decode *)
+      unfold pure. cbn [fst snd]. apply mc_same; [reflexivity | reflexivity | | intros v Ev; reflexivity].
+      cbn [answer_ok ghost_step]. unfold is_issuer. rewrite (is_issuer_model h w Hd i).
+      destruct (the_issuer w i) as [s|]; cbn [bind is_ok]; [|reflexivity].
+      destruct (decode_expiration data) as [[[ca vu] pl]|]; cbn [bind res_map fst snd]; apply outcome_eqb_refl.
+    - (* Expired *)
+      unfold pure. cbn [fst snd]. apply mc_same; [reflexivity | reflexivity | | intros v Ev; reflexivity].
+      cbn [answer_ok ghost_step]. unfold is_issuer. rewrite (is_issuer_model h w Hd i).
+      destruct (the_issuer w i) as [s|]; cbn [bind is_ok]; [|reflexivity].
+      cbn [observe o_now]. destruct (is_claim_expired (w_now w) data); cbn [bind res_map]; apply outcome_eqb_refl.
+    - (* SetCti *)
+      cbn [fst snd]. split3; [clock_tac | reflexivity | cbn [effect_ok]].
+      rewrite frame_links. cbn [observe o_ver vo_cti vo_irs opt_eqb w_vcti w_virs andb]. rewrite ?N.eqb_refl, ?(opt_eqb_refl _ N.eqb_refl). reflexivity.
+    - (* SetIrs *)
+      cbn [fst snd]. split3; [clock_tac | reflexivity | cbn [effect_ok]].
+      rewrite frame_links. cbn [observe o_ver vo_cti vo_irs opt_eqb w_vcti w_virs andb]. rewrite ?N.eqb_refl, ?(opt_eqb_refl _ N.eqb_refl). reflexivity.
+    - (* Verify *)
+      unfold pure. cbn [fst snd]. apply mc_same; [reflexivity | reflexivity | | intros v Ev; reflexivity].
+      cbn [answer_ok observe o_ver vo_verify ghost_step].
+      rw_lookup (at_key_map_in _ N_eqb_spec (fun a : N => is_ok (verify_identity cf w a)) a _ (in_accounts a Hwf)).
+      destruct (verify_identity cf w a) as [[]|]; reflexivity.
+    - (* ValidateClaim *)
+      unfold pure. cbn [fst snd]. apply mc_same; [reflexivity | reflexivity | | intros v Ev; reflexivity].
+      cbn [answer_ok ghost_step]. rewrite (confirm_model h w g Hd Hw Hg). unfold validate_claim.
+      destruct ((cl_topic cl =? topic) && N.eqb (cl_issuer cl) i); cbn [andb]; apply outcome_eqb_refl.
+    - (* RecoveryTarget *)
+      unfold pure. cbn [fst snd]. apply mc_same; [reflexivity | reflexivity | | intros v Ev; reflexivity].
+      cbn [answer_ok observe o_ver vo_irs ghost_step]. unfold recovery_target.
+      destruct (w_virs w) as [ra|]; cbn [of_option bind]; [|reflexivity].
+      rewrite (irs_at_model h w Hd). unfold the_irs. destruct (aget N.eqb ra (w_irss w)) as [r|]; cbn [of_option bind]; [|reflexivity].
+      unfold observe_irs. cbn [io_recovered].
+      rw_lookup (at_key_map_in _ N_eqb_spec (get_recovered_to r) old _ (in_accounts old Hwf)). apply outcome_eqb_refl.
+    - (* Advance *)
+      cbn [fst snd]. split3; [unfold clock_ok; cbn [observe o_now w_now]; apply Z.eqb_refl | reflexivity | cbn [effect_ok]; apply frame_clock].
+    - (* Ledger *)
+      cbn [fst snd]. split3; [unfold clock_ok; cbn [observe o_now w_now]; apply Z.eqb_refl | reflexivity | cbn [effect_ok]; apply frame_clock].
+  Qed.
+End CallModel2.
+
+(* ---------------- the model's own trace, in the shape the harness prints ---------------- *)
+(* every item carries the revocation queries asked in its observation (the harness's list grows) *)
+Fixpoint model_trace (h : hdr) (w : world) (ks : list (call * list rkey)) : list item :=
+  match ks with
+  | [] => []
+  | (k, q) :: r =>
+      let wo := step (cfg_of h) w k in
+      (k, snd wo, observe (set_revq h q) (fst wo)) :: model_trace h (fst wo) r
+  end.
+Definition observe_model (h : hdr) (ks : list (call * list rkey)) : trace := (h, model_trace h (init_of h) ks).
+
+(* the header's revocation queries are irrelevant to the monitor *)
+Lemma mon_state_revq h q o g : mon_state (set_revq h q) o g = mon_state h o g.
+Proof. destruct h; reflexivity. Qed.
+Lemma mon_call_revq h q p o g k out : mon_call (set_revq h q) p o g k out = mon_call h p o g k out.
+Proof. destruct h; reflexivity. Qed.
+Lemma wf_call_revq h q k : wf_call (set_revq h q) k = wf_call h k.
+Proof. destruct h; reflexivity. Qed.
+Lemma cfg_of_revq h q : cfg_of (set_revq h q) = cfg_of h.
+Proof. destruct h; reflexivity. Qed.
+Lemma dom_revq h q w : dom h w -> dom (set_revq h q) w.
+Proof. intros [D1 D2 D3 D4]. destruct h. constructor; assumption. Qed.
+Lemma closed_revq h q w : closed h w -> closed (set_revq h q) w.
+Proof. intros H a s E. destruct (H a s E) as [H1 H2]. destruct h. split; assumption. Qed.
+
+Lemma strip_observe h q w : strip_rev (observe (set_revq h q) w) = observe (set_revq h []) w.
+Proof.
+  destruct h as [net now0 xdr sigs mt mi mk mr mc ctis irss idents issuers accounts iaddrs topics keys revq].
+  unfold strip_rev, observe, set_revq. cbn -[observe_cti observe_irs observe_ident observe_issuer cfg_of verify_identity].
+  f_equal. rewrite map_map. apply map_ext. intros a. reflexivity.
+Qed.
+
+Lemma empty_obs_init h : strip_rev (empty_obs h) = observe (set_revq h []) (init_of h).
+Proof.
+  destruct h as [net now0 xdr sigs mt mi mk mr mc ctis irss idents issuers accounts iaddrs topics keys revq].
+  unfold strip_rev, empty_obs, observe, init_of, init, set_revq.
+  cbn [h_net h_now0 h_xdr h_sigs h_max_topics h_max_issuers h_max_keys h_max_regs h_max_countries h_ctis h_irss h_idents h_issuers
+       h_accounts h_iaddrs h_topics h_keys h_revq o_now o_ctis o_irss o_idents o_issuers o_ver w_now w_ctis w_irss w_idents w_issuers w_vcti w_virs].
+  assert (G : forall {S} (s0 : S) a l, get_or s0 a (map (fun x => (x, s0)) l) = s0).
+  { intros S s0 a l. unfold get_or. rewrite (aget_map_const _ N_eqb_spec (fun _ => s0)). destruct (existsb (N.eqb a) l); reflexivity. }
+  f_equal; try reflexivity.
+  all: try (apply map_ext; intros a; rewrite G; reflexivity).
+  all: try (rewrite map_map; apply map_ext; intros a; rewrite G; reflexivity).
+Qed.
+
+Lemma observe_set_revq h q w : observe (set_revq h (revq_of (observe (set_revq h q) w))) w = observe (set_revq h q) w.
+Proof.
+  destruct h as [net now0 xdr sigs mt mi mk mr mc ctis irss idents issuers accounts iaddrs topics keys revq].
+  unfold revq_of, set_revq. cbn [observe o_issuers h_issuers].
+  destruct issuers as [|a rest]; [reflexivity|].
+  cbn [map observe_issuer so_revoked h_revq]. rewrite map_map. cbn [fst]. rewrite map_id. reflexivity.
+Qed.
+
+Lemma diff_model h ks : forall w i, diff_from h w (model_trace h w ks) i = 0%N.
+Proof.
+  induction ks as [|[k q] r IH]; intros w i; cbn [model_trace diff_from]; [reflexivity|].
+  destruct (step (cfg_of h) w k) as [w' out] eqn:E. cbn [fst snd].
+  rewrite observe_set_revq, outcome_eqb_refl, obs_eqb_refl. cbn [andb]. apply IH.
+Qed.
+
+Lemma mon_model h ks : forall w q0 g i,
+  world_inv w -> dom h w -> closed h w -> ghost_ok w g -> irss_inv w -> forallb (fun kq => wf_call h (fst kq)) ks = true ->
+  mon_from h (observe (set_revq h q0) w) g (model_trace h w ks) i = 0%N.
+Proof.
+  induction ks as [|[k q] r IH]; intros w q0 g i Hw Hd Hc Hg Hr Hwf; cbn [model_trace mon_from]; [reflexivity|].
+  cbn [forallb fst] in Hwf. apply andb_true_iff in Hwf. destruct Hwf as [Hk Hrest].
   pose proof (step_world_inv (cfg_of h) w k Hw) as Hw'.
   pose proof (step_dom h w k Hd) as Hd'.
   pose proof (step_closed h w k Hk Hc) as Hc'.
   pose proof (step_ghost_ok (cfg_of h) w k g Hw Hg) as Hg'.
-  rewrite (mon_state_model h _ Hw' Hd' Hc'), (keys_ok_model h _ _ Hd' Hw' Hg'), (mon_call_model h w k prev Hd Hp Hd'). cbn [andb].
+  pose proof (step_irss_inv (cfg_of h) w k Hr) as Hr'.
+  cbn [fst snd].
+  (* state clauses, with the header carrying this item's queries *)
+  rewrite <- (mon_state_revq h q).
+  rewrite (mon_state_model (set_revq h q) (fst (step (cfg_of h) w k)) _ Hw' (dom_revq h q _ Hd')
+             (closed_revq h q _ Hc') Hg' Hr').
+  (* call clauses, on the observations without their revocation queries *)
+  rewrite !strip_observe, <- (mon_call_revq h []).
+  pose proof (mon_call_model (set_revq h []) w g (dom_revq h [] w Hd) Hw Hg k) as Hm.
+  rewrite wf_call_revq, cfg_of_revq in Hm. rewrite (Hm Hk). cbn [andb].
   apply IH; auto.
 Qed.
 
-(* The monitor accepts every run of the model, and the model does not differ from itself. *)
+(* The monitor accepts every run of the model - in the shape the harness prints, with arbitrary
+   revocation queries per item - and the model does not differ from itself. *)
 Theorem check_accepts_model h ks :
-  forallb (wf_call h) ks = true -> check (observe_model h ks) = (0%N, 0%N, 0%N).
+  hdr_ok h = true -> ks <> [] -> forallb (fun kq => wf_call h (fst kq)) ks = true ->
+  check (observe_model h ks) = (0%N, 0%N, 0%N).
 Proof.
-  intros Hwf. unfold check, observe_model.
-  rewrite diff_model, (mon_model h ks (init_of h) None [] 0%N); auto.
+  intros Hh Hne Hwf. unfold check, observe_model. rewrite diff_model, Hh.
+  assert (is_nil (model_trace h (init_of h) ks) = false) as ->.
+  { destruct ks as [|[k q] r]; [congruence|]. reflexivity. }
+  cbn [negb andb].
+  destruct ks as [|[k q] r]; [congruence|]. cbn [model_trace mon_from].
+  (* first item: the previous observation is the one of the fresh contracts *)
+  pose proof (mon_model h ((k, q) :: r) (init_of h) [] ghost0 0%N) as H. cbn [model_trace mon_from] in H.
+  rewrite strip_observe in H. rewrite empty_obs_init. rewrite H; auto.
   - unfold init_of. apply world_inv_init.
   - apply dom_init.
   - apply closed_init.
   - apply ghost_ok_init.
+  - intros a s E. cbn in E. apply aget_init in E. subst. apply irs_inv_init.
 Qed.
